@@ -11,22 +11,51 @@ R1  antimeridian split (T-ALG + reaching definitions on the CFG + def-use across
     bypasses it), is a multiple of the crossing element only, and the kept
     slices tile the rest without overlap.  The part is found through
     comprehension / map / helper or loop-append forms and any of concatenate /
-    hstack / append / r_ / list spellings.  Substituting the call arguments and
-    the lengths as returned by _calculate_segment_lengths (A measured from
-    element k to the antimeridian, B from there to k+1), share(first) ≡ A/(A+B),
+    hstack / append / r_ / list spellings; straight-line repository helpers
+    (assignments, guard clauses, if/elif/else with early returns) are opened by
+    substitution.  Substituting the call arguments and the lengths as returned
+    by _calculate_segment_lengths (A measured from element k to the
+    antimeridian, B from there to k+1), share(first) ≡ A/(A+B),
     share(second) ≡ B/(A+B), and over every pair of paths the two sum to 1;
     lengths and both parts use one crossing index.
-R2  degenerate-segment share (T-GUARD): the guarded division producing the
-    sub-segment shares is guarded on its *denominator* and defaults to one
-    where the denominator is zero (a zero-length segment has exactly one
-    sub-segment, so its share must be 1).
-R3  one repetition vector (T-AGREE): every np.repeat in the share computation
-    uses the same, singly-defined count vector; numerator/denominator of the
-    share are the sub-segment and the (repeated) whole-segment distances
-    produced by the same distance function.
+R2-R7 are decided on CLOSED VALUES (class Values): a returned component is
+    rewritten over the function's parameters as received, the grid axes and the
+    arrays of the horizontal intersection - locals replaced by the definition
+    that reaches the use (reaching definitions), tuple / record components
+    taken apart, repository helpers with a straight-line body replaced by what
+    they return - and put in one canonical spelling (np./numpy., method vs
+    function, keyword vs positional, list vs tuple displays, `.flatten()` after
+    boolean-mask indexing, `0 != x`, `np.logical_not`).  A rule then reads the
+    value, not the text, so extracting / inlining / renaming / hoisting /
+    reordering cannot change its verdict.  A form that is not recognised is
+    exit 2; a recognised value of the wrong kind in a slot is a violation.
+R2  degenerate-segment share (T-GUARD): every integrated output is
+    repeat(value, COUNT) × SHARE with SHARE = PIECE / WHOLE guarded EXACTLY on
+    WHOLE != 0 (np.divide(out=, where=) or np.where), default ONE where WHOLE is
+    zero (a zero-length segment has exactly one piece, so its share is 1); a
+    guard on the numerator, a tolerance, a default other than one or an
+    unguarded quotient is reported.
+R3  one repetition vector (T-AGREE): COUNT is the number of cells per segment
+    (non-NaN cell indices per row, or non-NaN points per row − 1); values,
+    WHOLE and the joint positions use that vector; PIECE = lengths between
+    consecutive flattened intersection points (latitude array with latitude
+    array, NaN padding masked out) with the joints between segments, at
+    (cumsum(COUNT + 1) − 1)[:-1], deleted; WHOLE = repeat(length between
+    consecutive way-points (lats, lons as received), COUNT); both by one
+    distance function.
 R4  part-suffix agreement (T-ROLE): names carrying a first/second marker are
     only combined with names of the same marker (the second split receives
     the second length); concatenations join first then second of one stem.
+R5  ordering direction (shared with C05-R5): the rows of intersection
+    coordinates that are sorted descending are those where the way-point
+    coordinate of the SAME axis decreases, read from the coordinates (never
+    from cell-index changes); which array is which axis is decided by the
+    returned array it flows into.
+R6  forwarding: at every call into the module made by the three entry points,
+    the value bound to lats / lons / integrated_variables closes to the
+    caller's own parameter as received (np.asarray(x) / x.copy() are still
+    that value; a filter, a re-ordering, arithmetic is not).
+R7  cell look-ups (shared with C05-R8): see c05.rule_lookup.
 """
 
 from __future__ import annotations
@@ -36,8 +65,8 @@ import copy
 import re
 
 from ..algebra import AlgebraError, normal_form, poly_equal, Rat
-from ..astutil import (MUTATING_METHODS, ancestors, assigned_names, call_name, calls_in, conjuncts, guards_of, is_within,
-                       kwarg, names_in, norm, single_def_value, stmt_of, stores_to, walk_no_nested)
+from ..astutil import (MUTATING_METHODS, ancestors, assigned_names, call_name, calls_in, conjuncts, const_value, guards_of,
+                       is_within, kwarg, names_in, norm, single_def_value, stmt_of, stores_to, walk_no_nested)
 from ..cfg import CFG
 from ..resolve import resolve_call
 
@@ -106,21 +135,60 @@ def _np_name(c: ast.Call) -> str | None:
     return None
 
 
+_SINGLETONS = (ast.expr_context, ast.operator, ast.unaryop, ast.cmpop, ast.boolop)
+
+
+def tcopy(n):
+    """copy of an AST (sub-)tree: fields, positions and the two reporting tags; parent links are not followed (a copy of a
+    node of the parsed program is a free-standing tree) and nothing is shared with the original"""
+    if isinstance(n, list):
+        return [tcopy(x) for x in n]
+    if not isinstance(n, ast.AST) or isinstance(n, _SINGLETONS):
+        return n
+    new = type(n)()
+    for f in n._fields:
+        try:
+            setattr(new, f, tcopy(getattr(n, f)))
+        except AttributeError:
+            pass
+    for a in n._attributes:
+        if hasattr(n, a):
+            setattr(new, a, getattr(n, a))
+    d = n.__dict__
+    if '_ck' in d:
+        new._ck = d['_ck']
+    if '_nm' in d:
+        new._nm = d['_nm']
+    return new
+
+
 class _Subst(ast.NodeTransformer):
     def __init__(self, mapping):
         self.mapping = mapping
 
     def visit_Name(self, n):
         if isinstance(n.ctx, ast.Load) and n.id in self.mapping:
-            return copy.deepcopy(self.mapping[n.id])
+            return tcopy(self.mapping[n.id])
         return n
 
 
 def _subst(e, mapping):
-    return _Subst(mapping).visit(copy.deepcopy(e))
+    return _Subst(mapping).visit(tcopy(e))
+
+
+def plain_value(d, name=None):
+    """value bound by statement `d` when it is `name = value` / `name: T = value` (one plain name target), else None"""
+    if isinstance(d, ast.Assign) and len(d.targets) == 1 and isinstance(d.targets[0], ast.Name) \
+            and (name is None or d.targets[0].id == name):
+        return d.value
+    if isinstance(d, ast.AnnAssign) and isinstance(d.target, ast.Name) and d.value is not None and (name is None or d.target.id == name):
+        return d.value
+    return None
 
 
 class SeqView:
+    PRIMITIVES = {'great_circle_distance'}      # repository functions that stand for themselves (a measured length)
+
     def __init__(self, fi, prog=None):
         self.fi = fi
         self.prog = prog
@@ -202,7 +270,10 @@ class SeqView:
             out.update((nm, node.id) for nm in kill | gen)
             return frozenset(out)
 
-        self.ins, _ = self.cfg.forward(frozenset(), transfer, lambda a, b: a | b, edge_ok=lambda a, b, lab: lab != 'e')
+        # the value a parameter has on entry is a pseudo-definition (node -1): `defs` does not list it,
+        # `entry_reaches` tells whether it can still be the value at a statement
+        init = frozenset((p, -1) for p in self.params)
+        self.ins, _ = self.cfg.forward(init, transfer, lambda a, b: a | b, edge_ok=lambda a, b, lab: lab != 'e')
 
     def _node_of(self, stmt):
         ids = [i for i in self.cfg.nodes_of(stmt) if self.cfg.nodes[i].kind != 'join' and i in self.ins]
@@ -215,9 +286,13 @@ class SeqView:
         out = []
         for nid in self._node_of(at):
             for nm, d in self.ins[nid]:
-                if nm == name and self.cfg.nodes[d].stmt not in out:
+                if nm == name and d >= 0 and self.cfg.nodes[d].stmt not in out:
                     out.append(self.cfg.nodes[d].stmt)
         return sorted(out, key=lambda s: (s.lineno, s.col_offset))
+
+    def entry_reaches(self, at, name):
+        """the value parameter `name` had on entry can still be its value at statement `at`"""
+        return any((name, -1) in self.ins[nid] for nid in self._node_of(at))
 
     def is_param(self, at, name):
         return name in self.params and not self.defs(at, name)
@@ -236,24 +311,85 @@ class SeqView:
             if len(ds) == 1 and isinstance(ds[0], ast.Assign) and isinstance(ds[0].value, ast.Lambda):
                 return self._callable(ds[0].value, ds[0])
             if len(ds) == 1 and isinstance(ds[0], (ast.FunctionDef,)):
-                h = ds[0]
-                a = h.args
-                if a.vararg or a.kwarg or a.kwonlyargs or h.decorator_list:
-                    raise Undecided(f'local helper {h.name} has a signature that is not opened')
-                env = {}
-                body = [s for s in h.body if not (isinstance(s, ast.Expr) and isinstance(s.value, ast.Constant))]
-                for s in body[:-1]:
-                    if isinstance(s, ast.Assign) and len(s.targets) == 1 and isinstance(s.targets[0], ast.Name):
-                        env[s.targets[0].id] = _subst(s.value, env)
-                    else:
-                        raise Undecided(f'local helper {h.name} is more than assignments and a return')
-                if not body or not isinstance(body[-1], ast.Return) or body[-1].value is None:
-                    raise Undecided(f'local helper {h.name} does not end in a return of a value')
-                return [x.arg for x in a.posonlyargs + a.args], _subst(body[-1].value, env)
+                if ds[0].decorator_list:
+                    raise Undecided(f'local helper {ds[0].name} has a signature that is not opened')
+                return self._straight_line(ds[0], 'local helper')
         return None
 
+    @staticmethod
+    def _straight_line(h, what):
+        """(parameter names, returned expression over them) of a function made of assignments, guard clauses that raise,
+        and if / elif / else with (early) returns: the returned value as one (conditional) expression"""
+        a = h.args
+        if a.vararg or a.kwarg or isinstance(h, ast.AsyncFunctionDef):
+            raise Undecided(f'{what} {h.name} has a signature that is not opened')
+        noise = lambda s: isinstance(s, ast.Pass) or (isinstance(s, ast.Expr) and (isinstance(s.value, ast.Constant) or (
+            isinstance(s.value, ast.Call) and call_name(s.value).startswith(('logger.', 'logging.', 'warnings.warn')))))
+        budget = [0]
+
+        def value(stmts, env):
+            budget[0] += 1
+            if budget[0] > 40:
+                raise Undecided(f'{what} {h.name} branches too much')
+            for i, s in enumerate(stmts):
+                if noise(s):
+                    continue
+                v = plain_value(s)
+                if v is not None:
+                    env = dict(env)
+                    env[s.targets[0].id if isinstance(s, ast.Assign) else s.target.id] = _subst(v, env)
+                elif isinstance(s, ast.Return) and s.value is not None:
+                    return _subst(s.value, env)
+                elif isinstance(s, ast.If):
+                    raises = lambda body: bool(body) and isinstance(body[-1], ast.Raise) and all(
+                        isinstance(x, ast.Raise) or noise(x) for x in body)
+                    rest = list(stmts[i + 1:])
+                    if raises(s.body):
+                        return value(list(s.orelse) + rest, env)        # on the path that returns, the guard did nothing
+                    if raises(s.orelse):
+                        return value(list(s.body) + rest, env)
+                    return ast.IfExp(test=_subst(s.test, env), body=value(list(s.body) + rest, env),
+                                     orelse=value(list(s.orelse) + rest, env))
+                else:
+                    raise Undecided(f'{what} {h.name} is more than assignments, guard clauses, if/else and returns')
+            raise Undecided(f'{what} {h.name} does not end in a return of a value')
+        return [x.arg for x in a.posonlyargs + a.args + a.kwonlyargs], value(list(h.body), {})
+
+    def _repo_callable(self, c):
+        """(parameter names, returned expression, receiver or None) of a resolved repository function called by `c`
+        (module-level function, or method of the class under analysis called on self / the class), when its body is
+        straight-line; None when `c` is not such a call"""
+        if self.prog is None or not isinstance(c.func, (ast.Name, ast.Attribute)):
+            return None
+        try:
+            callee = resolve_call(self.prog, self.fi, c)
+        except Exception:
+            callee = None
+        if callee is None or callee.node is self.fn or callee.node.name in ('__init__', '__post_init__') \
+                or callee.node.name in self.PRIMITIVES:
+            return None
+        decos = callee.decorators()
+        if any(d not in ('staticmethod',) for d in decos):
+            return None
+        try:
+            ps, body = self._straight_line(callee.node, 'helper')
+        except Undecided:
+            return None
+        if callee.cls is not None and 'staticmethod' not in decos:
+            if not (isinstance(c.func, ast.Attribute) and isinstance(c.func.value, ast.Name) and c.func.value.id == 'self') or not ps:
+                return None
+            if ps[0] != 'self':
+                body = _subst(body, {ps[0]: ast.Name(id='self', ctx=ast.Load())})
+            ps = ps[1:]
+        a = callee.node.args
+        names = [x.arg for x in a.posonlyargs + a.args]
+        defaults = dict(zip(reversed(names), reversed(a.defaults)))
+        defaults.update({x.arg: d for x, d in zip(a.kwonlyargs, a.kw_defaults) if d is not None})
+        return ps, body, defaults
+
     def open_calls(self, e, at, depth=0):
-        """copy of expression `e` with calls of local helpers replaced by their bodies"""
+        """copy of expression `e` with calls of local helpers (lambda, nested def) and of straight-line repository
+        helpers replaced by what they return, arguments substituted"""
         if depth > 6:
             raise Undecided('local helpers nest too deeply')
         view = self
@@ -263,6 +399,17 @@ class SeqView:
                 self.generic_visit(c)
                 cb = view._callable(c.func, at) if isinstance(c.func, (ast.Name, ast.Lambda)) else None
                 if cb is None:
+                    rc = view._repo_callable(c)
+                    if rc is not None and not any(isinstance(a, ast.Starred) for a in c.args) and all(k.arg for k in c.keywords):
+                        ps, body, defaults = rc
+                        if len(c.args) <= len(ps) and all(k.arg in ps for k in c.keywords):
+                            mm = dict(zip(ps, c.args))
+                            mm.update({k.arg: k.value for k in c.keywords})
+                            for p_ in ps:
+                                if p_ not in mm and p_ in defaults:
+                                    mm[p_] = copy.deepcopy(defaults[p_])
+                            if set(mm) == set(ps):
+                                return view.open_calls(_subst(body, mm), at, depth + 1)
                     return c
                 ps, body = cb
                 if c.keywords and any(k.arg is None or k.arg not in ps for k in c.keywords) or len(c.args) > len(ps) \
@@ -285,9 +432,8 @@ class SeqView:
             if nm in env or nm in bound or self.is_param(at, nm):
                 continue
             ds = self.defs(at, nm)
-            if len(ds) == 1 and isinstance(ds[0], ast.Assign) and len(ds[0].targets) == 1 \
-                    and isinstance(ds[0].targets[0], ast.Name):
-                v = self.open_calls(ds[0].value, ds[0])
+            if len(ds) == 1 and plain_value(ds[0]) is not None:
+                v = self.open_calls(plain_value(ds[0]), ds[0])
                 env[nm] = v
                 self.scalar_env(v, ds[0], bound, env, depth + 1)
         return env
@@ -351,8 +497,10 @@ class SeqView:
             for d in ds:
                 if isinstance(d, (ast.For, ast.AsyncFor)) and isinstance(d.target, ast.Name) and d.target.id == e.id:
                     out.append([('whole', e.id)])
-                elif isinstance(d, ast.Assign) and len(d.targets) == 1 and isinstance(d.targets[0], ast.Name):
-                    out += self.seq(d.value, d, (), depth + 1)
+                elif plain_value(d, e.id) is not None:
+                    if isinstance(plain_value(d), ast.Constant) and plain_value(d).value is None:
+                        continue        # "absent": the alternative in which there is no such array
+                    out += self.seq(plain_value(d), d, (), depth + 1)
                 else:
                     raise Undecided(f'`{e.id}` is bound or altered by `{norm(d)[:60]}` (line {d.lineno})')
             return out
@@ -377,8 +525,10 @@ class SeqView:
             return self._join([rec(x.value) if isinstance(x, ast.Starred) else [[('elem', x, at, bound)]] for x in e.elts])
         if isinstance(e, ast.Call):
             cb = self._callable(e.func, at) if isinstance(e.func, (ast.Name, ast.Lambda)) else None
-            if cb is not None:
-                return rec(self.open_calls(e, at))
+            if cb is not None or (_np_name(e) is None and self._repo_callable(e) is not None):
+                opened = self.open_calls(e, at)
+                if ast.dump(opened) != ast.dump(e):
+                    return rec(opened)
             n = _np_name(e)
             if isinstance(e.func, ast.Attribute) and e.func.attr == 'copy' and not e.args:
                 return rec(e.func.value)
@@ -438,9 +588,8 @@ class SeqView:
             if self.is_param(at, e.id):
                 return e.id
             ds = self.defs(at, e.id)
-            if len(ds) == 1 and isinstance(ds[0], ast.Assign) and len(ds[0].targets) == 1 \
-                    and isinstance(ds[0].targets[0], ast.Name):
-                return self.source(ds[0].value, ds[0])
+            if len(ds) == 1 and plain_value(ds[0]) is not None:
+                return self.source(plain_value(ds[0]), ds[0])
         raise Undecided(f'`{norm(e)[:50]}` is not one of the tuple-of-arrays parameters as received')
 
     def coll(self, e, at, depth=0):
@@ -454,10 +603,9 @@ class SeqView:
             if not ds:
                 raise Undecided(f'`{e.id}` has no definition reaching line {at.lineno}')
             self._members_untouched(e.id)
-            plain = [d for d in ds if isinstance(d, ast.Assign) and len(d.targets) == 1
-                     and isinstance(d.targets[0], ast.Name) and d.targets[0].id == e.id]
+            plain = [d for d in ds if plain_value(d, e.id) is not None]
             if len(plain) == len(ds):
-                return [alt for d in ds for alt in self.coll(d.value, d, depth + 1)]
+                return [alt for d in ds for alt in self.coll(plain_value(d), d, depth + 1)]
             return self._accumulated(e.id, at, ds, plain)
         if isinstance(e, (ast.Tuple, ast.List)) and not e.elts:
             return [('empty',)]
@@ -510,7 +658,7 @@ class SeqView:
         """`name = []` followed by one loop over a tuple-of-arrays parameter that appends once per iteration"""
         if len(plain) != 1:
             raise Undecided(f'`{name}` is re-bound and appended to on different paths')
-        init = plain[0].value
+        init = plain_value(plain[0])
         empty = (isinstance(init, (ast.List, ast.Tuple)) and not init.elts) or \
             (isinstance(init, ast.Call) and call_name(init) in ('list', 'tuple') and not init.args)
         if not empty:
@@ -596,8 +744,16 @@ def closed(view, e, at, bound=()):
     return e
 
 
+def _rename_back(e):
+    e = tcopy(e)
+    for x in ast.walk(e):
+        if isinstance(x, ast.Name):
+            x.id = re.sub(r'^(caller|cs)__', '', x.id)
+    return e
+
+
 def _rename(e, prefix):
-    e = copy.deepcopy(e)
+    e = tcopy(e)
     for x in ast.walk(e):
         if isinstance(x, ast.Name) and x.id not in _KEEP:
             x.id = prefix + x.id
@@ -662,8 +818,8 @@ def ret_elts(view, r):
     for _ in range(4):
         if isinstance(v, ast.Name) and not view.is_param(at, v.id):
             ds = view.defs(at, v.id)
-            if len(ds) == 1 and isinstance(ds[0], ast.Assign) and len(ds[0].targets) == 1 and isinstance(ds[0].targets[0], ast.Name):
-                v, at = ds[0].value, ds[0]
+            if len(ds) == 1 and plain_value(ds[0]) is not None:
+                v, at = plain_value(ds[0]), ds[0]
                 continue
         break
     if isinstance(v, ast.Call) and view.prog is not None:
@@ -710,6 +866,776 @@ def guarded_empty(r, name):
     return False
 
 
+# ---------------------------------------------------------------------------------------------------------------
+# Closed values.  `Values.close(fi, e, at)` is the expression `e` of function `fi`, evaluated at statement `at`,
+# written over the function's parameters (as received), `self.<attribute>`s, module-level names and calls that
+# are not opened - nothing else:
+#   * a local is replaced by the value of the definition that reaches `at` (reaching definitions on the CFG); several
+#     reaching definitions give `ALT__(v1, v2, ...)`; a local that is also changed in place (element store, augmented
+#     assignment, mutating method) gives `MUT__(v...)` - the value as bound, altered afterwards;
+#   * a component of a tuple assignment is taken out of the tuple (or out of what the called helper returns);
+#   * a call of a repository function whose body is straight-line (assignments, guard clauses that raise, if/else,
+#     no loop / try / with) is replaced by what that function returns, with the arguments substituted - so a value
+#     is followed through helpers, however many there are and wherever they were moved;
+#   * a component of the result of a function that is NOT opened is `RES__(call, 'axis kind')` when the callee's
+#     returned structure names that leaf (by position or field), else `call[i]...`.
+# Nothing is evaluated; forms that are not understood are left as they are written (rules then do not recognise
+# them and say so) or raise Undecided.
+# ---------------------------------------------------------------------------------------------------------------
+ALT, MUT, RES, FLAT = 'ALT__', 'MUT__', 'RES__', 'FLAT__'
+
+
+def _mk(name, *args):
+    return ast.Call(func=ast.Name(id=name, ctx=ast.Load()), args=list(args), keywords=[])
+
+
+def is_mk(e, name):
+    return isinstance(e, ast.Call) and isinstance(e.func, ast.Name) and e.func.id == name
+
+
+def alts(e):
+    """the alternatives of a closed value (ALT__ and conditional expressions flattened)"""
+    if is_mk(e, ALT):
+        return [y for x in e.args for y in alts(x)]
+    if isinstance(e, ast.IfExp):
+        return alts(e.body) + alts(e.orelse)
+    return [e]
+
+
+def _axis_word(name):
+    t = re.split(r'[_\W]+', name.lower())
+    hits = []
+    for a, words in (('lat', ('lat', 'lats', 'latitude', 'latitudes')), ('lon', ('lon', 'lons', 'longitude', 'longitudes')),
+                     ('altitude', ('altitude', 'altitudes', 'alt', 'alts')), ('time', ('time', 'times'))):
+        if any(w in t for w in words):
+            hits.append(a)
+    return hits[0] if len(hits) == 1 else None
+
+
+def _kind_word(name):
+    t = re.split(r'[_\W]+', name.lower())
+    return 'index' if any(w in t for w in ('indices', 'index', 'idx', 'idxs', 'cells', 'cell')) else 'coordinate'
+
+
+def leaf_role(name):
+    a = _axis_word(name)
+    return f'{a} {_kind_word(name)}' if a else None
+
+
+class Values:
+    def __init__(self, prog, keep=()):
+        self.prog = prog
+        self.keep = set(keep)        # names of repository functions treated as primitives (never opened)
+        self._views = {}
+        self._memo = {}
+        self._opened = {}
+        self._muts = {}
+        self._work = 0
+
+    def view(self, fi):
+        k = id(fi.node)
+        if k not in self._views:
+            self._views[k] = SeqView(fi, self.prog)
+        return self._views[k]
+
+    def speak_for(self, fi):
+        """(kept for callers) values are worded in the locals that hold them: see `show`"""
+
+    def callee_of(self, call):
+        ck = getattr(call, '_ck', None)
+        return self.prog.func(*ck) if ck else None
+
+    # ---- expressions ------------------------------------------------------------------------------------------
+    BUDGET = 300_000     # expression nodes visited per run: a closure that needs more is not decided (never a hang)
+
+    def close(self, fi, e, at, bound=frozenset(), stack=(), depth=0):
+        if depth > 80:
+            raise Undecided('value expression nests too deeply')
+        self._work += 1
+        if self._work > self.BUDGET:
+            raise Undecided('closed value grows too large')
+        rec = lambda x, b=bound: self.close(fi, x, at, b, stack, depth + 1)
+        if e is None:
+            return None
+        if isinstance(e, ast.Constant):
+            return ast.Constant(value=e.value)
+        if isinstance(e, ast.Name):
+            return self._name(fi, e, at, bound, stack, depth) if isinstance(e.ctx, ast.Load) else ast.Name(id=e.id, ctx=e.ctx)
+        if isinstance(e, (ast.GeneratorExp, ast.ListComp, ast.SetComp, ast.DictComp)):
+            b = set(bound)
+            gens = []
+            for g in e.generators:
+                it = self.close(fi, g.iter, at, frozenset(b), stack, depth + 1)
+                b |= set(assigned_names(g.target))
+                fb = frozenset(b)
+                gens.append(ast.comprehension(target=tcopy(g.target), iter=it, is_async=g.is_async,
+                                              ifs=[self.close(fi, i, at, fb, stack, depth + 1) for i in g.ifs]))
+            fb = frozenset(b)
+            if isinstance(e, ast.DictComp):
+                return ast.DictComp(key=self.close(fi, e.key, at, fb, stack, depth + 1),
+                                    value=self.close(fi, e.value, at, fb, stack, depth + 1), generators=gens)
+            return type(e)(elt=self.close(fi, e.elt, at, fb, stack, depth + 1), generators=gens)
+        if isinstance(e, ast.Lambda):
+            a = tcopy(e.args)
+            b = frozenset(bound | {x.arg for x in a.posonlyargs + a.args + a.kwonlyargs} |
+                          ({a.vararg.arg} if a.vararg else set()) | ({a.kwarg.arg} if a.kwarg else set()))
+            return ast.Lambda(args=a, body=self.close(fi, e.body, at, b, stack, depth + 1))
+        if isinstance(e, ast.NamedExpr):
+            return rec(e.value)
+        if isinstance(e, ast.Call):
+            return self._call(fi, e, at, bound, stack, depth)
+        if isinstance(e, ast.Attribute):
+            v = rec(e.value)
+            sel = self._select(v, e.attr)
+            return sel if sel is not None else ast.Attribute(value=v, attr=e.attr, ctx=ast.Load())
+        if isinstance(e, ast.Subscript):
+            v = rec(e.value)
+            if isinstance(e.slice, ast.Constant) and isinstance(e.slice.value, int):
+                sel = self._select(v, e.slice.value)
+                if sel is not None:
+                    return sel
+            return ast.Subscript(value=v, slice=rec(e.slice), ctx=ast.Load())
+        kw = {}
+        for f, v in ast.iter_fields(e):
+            if isinstance(v, ast.expr):
+                kw[f] = rec(v)
+            elif isinstance(v, list):
+                kw[f] = [rec(x) if isinstance(x, ast.expr) else
+                         (ast.keyword(arg=x.arg, value=rec(x.value)) if isinstance(x, ast.keyword) else x) for x in v]
+            else:
+                kw[f] = v
+        return type(e)(**kw)
+
+    # ---- names -----------------------------------------------------------------------------------------------
+    def plain_of(self, mut):
+        """what a local that is altered in place (MUT__ node) was bound to, closed; the alterations are ignored"""
+        fi, name, ds, stack = self._muts[mut.args[0].value]
+        vals = [v for v in (self._bound_value(fi, name, d, stack, 0) for d in ds) if v is not None and v != 'loop']
+        return vals[0] if len(vals) == 1 else _mk(ALT, *vals)
+
+    def alterations_of(self, mut):
+        """the statements that alter the local behind a MUT__ node in place"""
+        fi, name, ds, stack = self._muts[mut.args[0].value]
+        return fi, [d for d in ds if self._binds(d, name) is None]
+
+    @staticmethod
+    def _viewed(v):
+        """the local that expression `v` is (a view of), else None"""
+        base = v
+        for _ in range(6):
+            if isinstance(base, (ast.Subscript, ast.Attribute)) and not (isinstance(base, ast.Subscript) and is_mask(base.slice)):
+                base = base.value
+            elif isinstance(base, ast.Call) and call_name(base) in ('np.asarray', 'np.asanyarray', 'np.ravel', 'np.atleast_1d',
+                                                                   'np.transpose', 'np.squeeze') and base.args:
+                base = base.args[0]
+            elif isinstance(base, ast.Call) and isinstance(base.func, ast.Attribute) and base.func.attr in ('ravel', 'reshape', 'view',
+                                                                                                      'squeeze', 'transpose'):
+                base = base.func.value
+            else:
+                break
+        return base.id if isinstance(base, ast.Name) and base.id not in ('self', 'np', 'numpy') else None
+
+    def _aliased_then_altered(self, view, name, ds, at=None):
+        """what `name` holds is not the value it was bound to: it is bound to (a view of) another local that is altered in
+        place afterwards, or another local that is (a view of) it is altered in place before the use"""
+        muts = self._mutations(view)
+        ok_edge = lambda x, y, lab: lab != 'e'
+        for d in ds:
+            base = self._viewed(plain_value(d, name))
+            if base is None or base == name or not muts.get(base):
+                continue
+            dn = [i for i in view.cfg.nodes_of(d) if view.cfg.nodes[i].kind != 'join']
+            if any(view.cfg.reaches(a, b, edge_ok=ok_edge) for a in dn for b in muts[base]):
+                return True
+        through = self._opened[('alias', id(view.fn))].get(name)
+        if through and at is not None:
+            own = {i for d in ds for i in view.cfg.nodes_of(d)}
+            an = [i for i in view.cfg.nodes_of(at) if view.cfg.nodes[i].kind != 'join']
+            if any(b not in own and view.cfg.reaches(b, a, edge_ok=ok_edge) for b in through for a in an):
+                return True
+        return False
+
+    def _mutations(self, view):
+        """{local: CFG nodes that alter it in place}; ('alias', fn): {local: nodes that alter it through another local that is
+        (a view of) it}"""
+        k = ('mut', id(view.fn))
+        if k not in self._opened:
+            out = {}
+            for node in view.cfg.nodes:
+                kill, gen = view._effects(node)
+                for nm in gen:
+                    out.setdefault(nm, []).append(node.id)
+            alias = {}
+            for st in walk_no_nested(view.fn):
+                v = plain_value(st)
+                if v is not None:
+                    b = self._viewed(v)
+                    w = st.targets[0].id if isinstance(st, ast.Assign) else st.target.id
+                    if b is not None and b != w:
+                        alias.setdefault(w, set()).add(b)
+            via = {}
+            for _ in range(3):
+                for w, bases in alias.items():
+                    nodes = list(out.get(w, [])) + list(via.get(w, []))
+                    for b in bases:
+                        for nid in nodes:
+                            if nid not in via.setdefault(b, []):
+                                via[b].append(nid)
+            self._opened[k] = out
+            self._opened[('alias', id(view.fn))] = via
+        return self._opened[k]
+
+    @staticmethod
+    def _binds(d, name):
+        """True / 'loop' when statement d (re)binds `name`, None when it alters the object in place"""
+        if isinstance(d, (ast.For, ast.AsyncFor)) and name in assigned_names(d.target):
+            return 'loop'
+        if isinstance(d, (ast.With, ast.AsyncWith, ast.FunctionDef, ast.AsyncFunctionDef, ast.ClassDef, ast.Import, ast.ImportFrom)):
+            return 'loop'
+        if isinstance(d, ast.AnnAssign) and isinstance(d.target, ast.Name) and d.target.id == name and d.value is not None:
+            return True
+        if isinstance(d, ast.Assign) and any(name in assigned_names(t) for t in d.targets):
+            return True
+        if any(isinstance(x, ast.NamedExpr) and x.target.id == name for x in walk_no_nested(d)):
+            return True
+        return None
+
+    def _name(self, fi, n, at, bound, stack, depth, plain_only=None):
+        keep = ast.Name(id=n.id, ctx=ast.Load())
+        if n.id in bound:
+            return keep
+        view = self.view(fi)
+        ds = view.defs(at, n.id)
+        if not ds:
+            return keep
+        key = (id(fi.node), n.id, tuple(sorted(id(d) for d in ds)), n.id in view.params and view.entry_reaches(at, n.id), stack)
+        if key in self._memo:
+            return tcopy(self._memo[key])
+        vals, changed = [], False
+        if n.id in view.params and view.entry_reaches(at, n.id):
+            vals.append(keep)
+        if plain_only is None and (any(self._binds(d, n.id) is None for d in ds) or self._aliased_then_altered(view, n.id, ds, at)):
+            # altered in place after it was bound: opaque (rules that know what the alteration is ask `plain_of`)
+            mk = f'{n.id}@{fi.qualname}:{",".join(str(d.lineno) for d in ds)}'
+            self._muts[mk] = (fi, n.id, ds, stack)
+            out = _mk(MUT, ast.Constant(mk))
+            self._memo[key] = out
+            return tcopy(out)
+        for d in ds:
+            v = self._bound_value(fi, n.id, d, stack, depth)
+            if v is None:
+                changed = True
+            elif v == 'loop':
+                self._memo[key] = keep
+                return keep
+            else:
+                vals.append(v)
+        uniq = []
+        for v in vals:
+            if not any(ast.dump(v) == ast.dump(u) for u in uniq):
+                uniq.append(v)
+        if len(uniq) == 1:
+            out = uniq[0]
+            if not isinstance(out, (ast.Name, ast.Constant)):
+                out._nm = n.id          # reporting aid: the local that holds this value (see show)
+        else:
+            out = _mk(ALT, *uniq)
+        self._memo[key] = out
+        return tcopy(out)
+
+    def _bound_value(self, fi, name, d, stack, depth):
+        """closed value that statement `d` binds `name` to; None when `d` changes the object in place; 'loop' for
+        an iteration variable"""
+        if isinstance(d, (ast.For, ast.AsyncFor)) and name in assigned_names(d.target):
+            return 'loop'
+        if isinstance(d, (ast.With, ast.AsyncWith, ast.FunctionDef, ast.AsyncFunctionDef, ast.ClassDef, ast.Import, ast.ImportFrom)):
+            return 'loop'
+        if isinstance(d, ast.AnnAssign) and isinstance(d.target, ast.Name) and d.target.id == name and d.value is not None:
+            return self.close(fi, d.value, d, frozenset(), stack, depth + 1)
+        if isinstance(d, ast.Assign):
+            for t in d.targets:
+                if isinstance(t, ast.Name) and t.id == name:
+                    return self.close(fi, d.value, d, frozenset(), stack, depth + 1)
+                path = self._target_path(t, name)
+                if path is not None:
+                    v = d.value
+                    path = list(path)
+                    while path and isinstance(v, (ast.Tuple, ast.List)) and not any(isinstance(x, ast.Starred) for x in v.elts) \
+                            and path[0] < len(v.elts):
+                        v = v.elts[path.pop(0)]
+                    v = self.close(fi, v, d, frozenset(), stack, depth + 1)
+                    for step in path:
+                        sel = self._select(v, step)
+                        v = sel if sel is not None else ast.Subscript(value=v, slice=ast.Constant(step), ctx=ast.Load())
+                    return v
+        for x in walk_no_nested(d):
+            if isinstance(x, ast.NamedExpr) and x.target.id == name:
+                return self.close(fi, x.value, d, frozenset(), stack, depth + 1)
+        return None
+
+    @staticmethod
+    def _target_path(t, name, path=()):
+        if isinstance(t, ast.Name):
+            return path if t.id == name and path else None
+        if isinstance(t, (ast.Tuple, ast.List)):
+            if any(isinstance(x, ast.Starred) for x in t.elts):
+                return None
+            for i, x in enumerate(t.elts):
+                p = Values._target_path(x, name, path + (i,))
+                if p is not None:
+                    return p
+        return None
+
+    # ---- components of a value ----------------------------------------------------------------------------------
+    def _select(self, v, step):
+        """component `step` (position or field name) of closed value `v`, or None when it is not visible"""
+        if is_mk(v, ALT):
+            parts = [self._select(x, step) for x in v.args]
+            return _mk(ALT, *parts) if all(p is not None for p in parts) else None
+        if isinstance(v, ast.IfExp):
+            a, b = self._select(v.body, step), self._select(v.orelse, step)
+            return ast.IfExp(test=v.test, body=a, orelse=b) if a is not None and b is not None else None
+        if isinstance(step, int) and isinstance(v, (ast.Tuple, ast.List)) and not any(isinstance(x, ast.Starred) for x in v.elts):
+            return v.elts[step] if -len(v.elts) <= step < len(v.elts) else None
+        if is_mk(v, 'REC__'):
+            fields = [k.arg for k in v.keywords]
+            if isinstance(step, int) and -len(fields) <= step < len(fields):
+                return v.keywords[step].value
+            if isinstance(step, str) and step in fields:
+                return v.keywords[fields.index(step)].value
+            return None
+        if is_mk(v, 'PART__'):
+            return self._leaf(v.args[0], tuple(c.value for c in v.args[1:]) + (step,), self.callee_of(v))
+        if isinstance(v, ast.Call) and getattr(v, '_ck', None) is not None:
+            return self._leaf(v, (step,), self.callee_of(v))
+        return None
+
+    def _leaf(self, call, path, callee):
+        """the part of the result of the un-opened `call` reached by `path`: RES__(call, role) for a named leaf,
+        PART__(call, *path) for an inner node of the returned structure, None when the structure does not show it"""
+        shape = self._result_shape(callee)
+        if shape is None:
+            return None
+        node = shape
+        for step in path:
+            if not isinstance(node, dict):
+                return None
+            nxt = None
+            for (i, f), sub in node.items():
+                if step == i or (isinstance(step, str) and step == f) or (isinstance(step, int) and step < 0 and step + len(node) == i):
+                    nxt = sub
+            if nxt is None:
+                return None
+            node = nxt
+        if isinstance(node, dict):
+            p = _mk('PART__', call, *[ast.Constant(s) for s in path])
+            p._ck = (callee.file, callee.qualname)
+            return p
+        role = leaf_role(node)
+        return _mk(RES, call, ast.Constant(role if role else node))
+
+    def _result_shape(self, callee):
+        """nested {(position, field): sub-shape | local name} of what `callee` returns (single return)"""
+        k = id(callee.node)
+        if k in self._opened and 'shape' in self._opened[k]:
+            return self._opened[k]['shape']
+        from ..resolve import resolve_class_call
+        rets = [r for r in walk_no_nested(callee.node) if isinstance(r, ast.Return) and r.value is not None]
+        shape = None
+        if len(rets) == 1:
+            def build(e, depth=0):
+                if depth > 6:
+                    return None
+                if isinstance(e, ast.Name):
+                    d = single_def_value(callee.node, e.id)
+                    if isinstance(d, ast.Tuple) or (isinstance(d, ast.Call) and resolve_class_call(self.prog, callee, d) is not None):
+                        return build(d, depth + 1)
+                    return e.id
+                if isinstance(e, ast.Tuple) and not any(isinstance(x, ast.Starred) for x in e.elts):
+                    out = {}
+                    for i, x in enumerate(e.elts):
+                        sub = build(x, depth + 1)
+                        if sub is None:
+                            return None
+                        out[(i, None)] = sub
+                    return out
+                if isinstance(e, ast.Call):
+                    ci = resolve_class_call(self.prog, callee, e)
+                    if ci is None or any(isinstance(a, ast.Starred) for a in e.args) or any(kk.arg is None for kk in e.keywords):
+                        return None
+                    fields = list(ci.annotated_fields())
+                    got = dict(zip(fields, e.args))
+                    got.update({kk.arg: kk.value for kk in e.keywords})
+                    out = {}
+                    for i, f in enumerate(fields):
+                        if f not in got:
+                            return None
+                        sub = build(got[f], depth + 1)
+                        if sub is None:
+                            return None
+                        out[(i, f)] = sub
+                    return out
+                return None
+            shape = build(rets[0].value)
+        self._opened.setdefault(k, {})['shape'] = shape
+        return shape
+
+    # ---- calls ---------------------------------------------------------------------------------------------------
+    def _openable(self, callee):
+        k = id(callee.node)
+        info = self._opened.setdefault(k, {})
+        if 'openable' not in info:
+            ok = not callee.node.args.vararg and not callee.node.args.kwarg and \
+                not any(d not in ('staticmethod', 'classmethod') for d in callee.decorators()) and \
+                not isinstance(callee.node, ast.AsyncFunctionDef)
+            nret = 0
+            for x in walk_no_nested(callee.node):
+                if isinstance(x, (ast.For, ast.AsyncFor, ast.While, ast.Try, ast.With, ast.AsyncWith, ast.Yield, ast.YieldFrom,
+                                  ast.Await, ast.Global, ast.Nonlocal, ast.Match, ast.Delete)) or \
+                        (hasattr(ast, 'TryStar') and isinstance(x, ast.TryStar)):
+                    ok = False
+                if isinstance(x, (ast.FunctionDef, ast.AsyncFunctionDef, ast.ClassDef)) and x is not callee.node:
+                    ok = False
+                if isinstance(x, ast.Return):
+                    nret += 1
+                    if x.value is None:
+                        ok = False
+            info['openable'] = ok and 1 <= nret <= 4 and len(list(walk_no_nested(callee.node))) < 900
+        return info['openable']
+
+    def _call(self, fi, c, at, bound, stack, depth):
+        view = self.view(fi)
+        rec = lambda x: self.close(fi, x, at, bound, stack, depth + 1)
+        if isinstance(c.func, (ast.Name, ast.Lambda)) and (isinstance(c.func, ast.Lambda) or c.func.id not in bound):
+            cb = view._callable(c.func, at)
+            if cb is not None:
+                return rec(view.open_calls(c, at))
+        try:
+            callee = resolve_call(self.prog, fi, c)
+        except Exception:
+            callee = None
+        args = [rec(a) for a in c.args]
+        kws = [ast.keyword(arg=k.arg, value=rec(k.value)) for k in c.keywords]
+        from ..resolve import resolve_class_call
+        ci = resolve_class_call(self.prog, fi, c) if isinstance(c.func, (ast.Name, ast.Attribute)) else None
+        if ci is not None:
+            if not any(isinstance(a, ast.Starred) for a in c.args) and all(k.arg for k in c.keywords):
+                fields = list(ci.annotated_fields())
+                got = dict(zip(fields, args))
+                got.update({k.arg: k.value for k in kws})
+                if len(args) <= len(fields) and set(got) == set(fields):
+                    r = _mk('REC__')
+                    r.keywords = [ast.keyword(arg=f, value=got[f]) for f in fields]
+                    return r
+            callee = None
+        # (never embed a node of the parsed tree: its parent link would drag the whole module into every copy)
+        if isinstance(c.func, ast.Attribute):
+            func = ast.Attribute(value=rec(c.func.value), attr=c.func.attr, ctx=ast.Load())
+        elif isinstance(c.func, ast.Name):
+            func = ast.Name(id=c.func.id, ctx=ast.Load())
+        else:
+            func = rec(c.func)
+        plain = ast.Call(func=func, args=args, keywords=kws)
+        if callee is None or isinstance(fi.node, ast.Lambda):
+            return plain
+        plain._ck = (callee.file, callee.qualname)
+        key = id(callee.node)
+        if key in stack or len(stack) > 8 or callee.node.name in self.keep or not self._openable(callee) or \
+                any(isinstance(a, ast.Starred) for a in c.args) or any(k.arg is None for k in c.keywords):
+            return plain
+        # ---- open the callee: bind parameters, take what it returns ----
+        a = callee.node.args
+        ps = [x.arg for x in a.posonlyargs + a.args]
+        defaults = dict(zip(reversed(ps), reversed(a.defaults)))
+        for x, dflt in zip(a.kwonlyargs, a.kw_defaults):
+            if dflt is not None:
+                defaults[x.arg] = dflt
+        binding = {}
+        decos = callee.decorators()
+        if callee.cls is not None and 'staticmethod' not in decos and ps:
+            recv = ps.pop(0)
+            if isinstance(c.func, ast.Attribute):
+                binding[recv] = rec(c.func.value)
+                if 'classmethod' in decos or (isinstance(c.func.value, ast.Name) and c.func.value.id not in ('self', 'cls')
+                                              and self.prog.resolve_class_expr(fi.module, c.func.value) is not None):
+                    return plain
+            else:
+                return plain
+        if len(args) > len(ps):
+            return plain
+        binding.update(zip(ps, args))
+        for k in kws:
+            if k.arg in binding or k.arg not in ps + [x.arg for x in a.kwonlyargs]:
+                return plain
+            binding[k.arg] = k.value
+        cview = self.view(callee)
+        for p_ in ps + [x.arg for x in a.kwonlyargs]:
+            if p_ not in binding:
+                if p_ not in defaults:
+                    return plain
+                binding[p_] = tcopy(defaults[p_])
+        rets = cview.returns()
+        live = []
+        for r in rets:
+            try:
+                cview._node_of(r)
+                live.append(r)
+            except Undecided:
+                pass
+        if not live:
+            return plain
+        outs = []
+        for r in live:
+            v = self.close(callee, r.value, r, frozenset(), stack + (key,), depth + 1)
+            outs.append(_subst(v, binding))
+        uniq = []
+        for v in outs:
+            if not any(ast.dump(v) == ast.dump(u) for u in uniq):
+                uniq.append(v)
+        return uniq[0] if len(uniq) == 1 else _mk(ALT, *uniq)
+
+
+# ---- canonical spelling of closed values --------------------------------------------------------------------------
+_NP_SIG = {
+    'repeat': ('a', 'repeats'), 'delete': ('arr', 'obj'), 'divide': ('x1', 'x2'), 'true_divide': ('x1', 'x2'),
+    'count_nonzero': ('a',), 'searchsorted': ('a', 'v'), 'where': ('condition', 'x', 'y'), 'cumsum': ('a',), 'sum': ('a',),
+    'ones_like': ('a',), 'zeros_like': ('a',), 'full_like': ('a', 'fill_value'), 'sign': ('x',), 'diff': ('a',),
+    'argmax': ('a',), 'argmin': ('a',), 'nonzero': ('a',), 'flatnonzero': ('a',), 'isnan': ('x',), 'abs': ('x',),
+    'any': ('a',), 'all': ('a',), 'not_equal': ('x1', 'x2'), 'logical_not': ('x',),
+}
+_METHOD_AS_FUNCTION = {'sum', 'cumsum', 'repeat', 'searchsorted', 'argmax', 'argmin', 'nonzero', 'any', 'all'}
+_ABS = {'np.abs', 'np.absolute', 'np.fabs', 'abs'}
+_FLIP = {ast.Lt: ast.Gt, ast.Gt: ast.Lt, ast.LtE: ast.GtE, ast.GtE: ast.LtE, ast.Eq: ast.Eq, ast.NotEq: ast.NotEq}
+
+
+def is_mask(e):
+    """`e` is written as a boolean array (what boolean-mask indexing takes)"""
+    if isinstance(e, ast.UnaryOp) and isinstance(e.op, ast.Invert):
+        return is_mask(e.operand)
+    if isinstance(e, ast.Compare):
+        return True
+    if isinstance(e, ast.BinOp) and isinstance(e.op, (ast.BitAnd, ast.BitOr, ast.BitXor)):
+        return is_mask(e.left) and is_mask(e.right)
+    if isinstance(e, ast.Call):
+        return call_name(e) in ('np.isnan', 'np.isfinite', 'np.isinf', 'np.logical_and', 'np.logical_or', 'np.logical_not',
+                                'np.isclose')
+    return False
+
+
+class _Canon(ast.NodeTransformer):
+    def visit(self, n):
+        r = super().visit(n)
+        if r is not n and isinstance(r, ast.AST) and isinstance(n, ast.AST):
+            nm = n.__dict__.get('_nm')
+            if nm and '_nm' not in r.__dict__ and not isinstance(r, (ast.Name, ast.Constant)):
+                r._nm = nm
+        return r
+
+    def visit_Attribute(self, n):
+        self.generic_visit(n)
+        if isinstance(n.value, ast.Name) and n.value.id == 'numpy':
+            n.value = ast.Name(id='np', ctx=ast.Load())
+        return n
+
+    def visit_List(self, n):
+        self.generic_visit(n)
+        return ast.Tuple(elts=n.elts, ctx=ast.Load()) if isinstance(n.ctx, ast.Load) else n
+
+    def visit_Compare(self, n):
+        self.generic_visit(n)
+        if len(n.ops) == 1 and type(n.ops[0]) in _FLIP and const_value(n.left) is not None and const_value(n.comparators[0]) is None:
+            return ast.Compare(left=n.comparators[0], ops=[_FLIP[type(n.ops[0])]()], comparators=[n.left])
+        return n
+
+    def visit_Call(self, n):
+        self.generic_visit(n)
+        nm = call_name(n)
+        callee = getattr(n, '_ck', None)
+        # method spelling -> function spelling
+        if isinstance(n.func, ast.Attribute) and not nm.startswith('np.') and n.func.attr in _METHOD_AS_FUNCTION \
+                and not (isinstance(n.func.value, ast.Name) and n.func.value.id in ('self', 'cls', 'math')) and callee is None:
+            n = ast.Call(func=ast.Attribute(value=ast.Name(id='np', ctx=ast.Load()), attr=n.func.attr, ctx=ast.Load()),
+                         args=[n.func.value] + n.args, keywords=n.keywords)
+            nm = call_name(n)
+        if isinstance(n.func, ast.Attribute) and n.func.attr in ('flatten', 'ravel') and not n.args and not nm.startswith('np.'):
+            n = _mk(FLAT, n.func.value)
+            nm = FLAT
+        elif nm == 'np.ravel' and len(n.args) == 1:
+            n = _mk(FLAT, n.args[0])
+            nm = FLAT
+        elif isinstance(n.func, ast.Attribute) and n.func.attr == 'reshape' and len(n.args) == 1 and const_value(n.args[0]) == -1:
+            n = _mk(FLAT, n.func.value)
+            nm = FLAT
+        if nm == FLAT:
+            x = n.args[0]
+            # indexing with a boolean mask already gives a fresh 1-D array; flattening a flat array gives it again
+            if (isinstance(x, ast.Subscript) and is_mask(x.slice)) or is_mk(x, FLAT):
+                return x
+            return n
+        if nm.startswith('np.'):
+            sig = _NP_SIG.get(nm[3:])
+            if sig:
+                args = list(n.args)
+                kws = list(n.keywords)
+                while len(args) < len(sig):
+                    k = next((k for k in kws if k.arg == sig[len(args)]), None)
+                    if k is None:
+                        break
+                    args.append(k.value)
+                    kws.remove(k)
+                n = ast.Call(func=n.func, args=args, keywords=kws)
+        if nm in ('sum', 'math.fsum', 'np.sum') and len(n.args) == 1 and not n.keywords and isinstance(n.args[0], ast.Tuple) \
+                and n.args[0].elts and not any(isinstance(x, ast.Starred) for x in n.args[0].elts):
+            acc = n.args[0].elts[0]
+            for x in n.args[0].elts[1:]:
+                acc = ast.BinOp(left=acc, op=ast.Add(), right=x)
+            return acc
+        if nm in _ABS and len(n.args) == 1:
+            n = ast.Call(func=ast.parse('np.abs', mode='eval').body, args=n.args, keywords=[])
+        if nm == 'np.logical_not' and len(n.args) == 1 and not n.keywords:
+            return ast.UnaryOp(op=ast.Invert(), operand=n.args[0])
+        if nm == 'np.not_equal' and len(n.args) == 2 and not n.keywords:
+            return self.visit_Compare(ast.Compare(left=n.args[0], ops=[ast.NotEq()], comparators=[n.args[1]]))
+        if callee is not None:
+            n._ck = callee
+        return n
+
+    def visit_UnaryOp(self, n):
+        self.generic_visit(n)
+        if isinstance(n.op, ast.Invert) and isinstance(n.operand, ast.UnaryOp) and isinstance(n.operand.op, ast.Invert):
+            return n.operand.operand
+        if isinstance(n.op, ast.Invert) and isinstance(n.operand, ast.Compare) and len(n.operand.ops) == 1:
+            inv = {ast.Eq: ast.NotEq, ast.NotEq: ast.Eq}.get(type(n.operand.ops[0]))
+            if inv:
+                return ast.Compare(left=n.operand.left, ops=[inv()], comparators=n.operand.comparators)
+        return n
+
+
+def canon(e):
+    return _Canon().visit(tcopy(e))
+
+
+# ---- patterns: Python expressions in which names like `X_` (capitals + trailing underscore) stand for anything ----------
+_PATS = {}
+
+
+def _pat(src):
+    if src not in _PATS:
+        _PATS[src] = canon(ast.parse(src, mode='eval').body)
+    return _PATS[src]
+
+
+def same(a, b):
+    return ast.dump(a) == ast.dump(b)
+
+
+def pm(pat, e, binds=None):
+    """bindings of the pattern's place-holders when closed value `e` has the shape `pat`, else None.  `+`, `*`, `&`, `|`
+    match in either order; a place-holder that occurs twice must stand for the same value both times."""
+    b = dict(binds or {})
+    p = _pat(pat) if isinstance(pat, str) else pat
+    return b if _pm(p, e, b) else None
+
+
+def pm_any(pats, e, binds=None):
+    for p in pats:
+        b = pm(p, e, binds)
+        if b is not None:
+            return b
+    return None
+
+
+def _pm(p, e, b):
+    if isinstance(p, ast.Name) and re.fullmatch(r'[A-Z][A-Z0-9]*_', p.id):
+        if p.id in b:
+            return same(b[p.id], e)
+        b[p.id] = e
+        return True
+    if isinstance(p, ast.Constant):
+        return isinstance(e, ast.Constant) and type(p.value) is type(e.value) and p.value == e.value or \
+            (isinstance(e, ast.Constant) and isinstance(p.value, (int, float)) and not isinstance(p.value, bool)
+             and isinstance(e.value, (int, float)) and not isinstance(e.value, bool) and p.value == e.value)
+    if type(p) is not type(e):
+        return False
+    if isinstance(p, ast.BinOp):
+        if type(p.op) is not type(e.op):
+            return False
+        trial = dict(b)
+        if _pm(p.left, e.left, trial) and _pm(p.right, e.right, trial):
+            b.clear(); b.update(trial)
+            return True
+        if isinstance(p.op, (ast.Add, ast.Mult, ast.BitAnd, ast.BitOr)):
+            trial = dict(b)
+            if _pm(p.left, e.right, trial) and _pm(p.right, e.left, trial):
+                b.clear(); b.update(trial)
+                return True
+        return False
+    if isinstance(p, ast.Call):
+        if len(p.args) != len(e.args) or sorted(k.arg or '' for k in p.keywords) != sorted(k.arg or '' for k in e.keywords):
+            return False
+        if not _pm(p.func, e.func, b):
+            return False
+        if not all(_pm(x, y, b) for x, y in zip(p.args, e.args)):
+            return False
+        ek = {k.arg: k.value for k in e.keywords}
+        return all(_pm(k.value, ek[k.arg], b) for k in p.keywords)
+    for f, pv in ast.iter_fields(p):
+        if f == 'ctx':
+            continue
+        ev = getattr(e, f, None)
+        if isinstance(pv, ast.AST):
+            if not isinstance(ev, ast.AST) or not _pm(pv, ev, b):
+                return False
+        elif isinstance(pv, list):
+            if not isinstance(ev, list) or len(pv) != len(ev):
+                return False
+            for x, y in zip(pv, ev):
+                if isinstance(x, ast.AST):
+                    if not isinstance(y, ast.AST) or not _pm(x, y, b):
+                        return False
+                elif x != y:
+                    return False
+        elif pv != ev:
+            return False
+    return True
+
+
+def mentions(e, pred):
+    return any(pred(x) for x in ast.walk(e))
+
+
+class _Abbrev(ast.NodeTransformer):
+    def visit_Call(self, n):
+        if is_mk(n, MUT) and n.args and isinstance(n.args[0], ast.Constant):
+            nm, _, where = str(n.args[0].value).partition('@')
+            return ast.Name(id=f'<{nm}, altered in place (lines {where.rpartition(":")[2]})>', ctx=ast.Load())
+        if is_mk(n, RES) and isinstance(n.args[0], ast.Call):
+            f = n.args[0].func
+            return ast.Name(id=f'<{n.args[1].value} of {f.attr if isinstance(f, ast.Attribute) else norm(f)}()>', ctx=ast.Load())
+        self.generic_visit(n)
+        return n
+
+
+class _Renamer(ast.NodeTransformer):
+    def visit(self, n):
+        nm = getattr(n, '_nm', None)
+        if nm and isinstance(n, ast.expr):
+            return ast.Name(id=nm, ctx=ast.Load())
+        return super().visit(n)
+
+
+def show(e, n=80, top=False):
+    """short text of a closed value: a sub-value that was reached through a local is shown by that local's name (the
+    value itself when it is the whole of `e` and `top`), arrays of an un-opened call's result by their role"""
+    try:
+        e = tcopy(e)
+        if top and getattr(e, '_nm', None):
+            e._nm = None
+        return norm(_Abbrev().visit(_Renamer().visit(e)))[:n]
+    except Exception:
+        return type(e).__name__
+
+
 SPLITS = (('first', 'Gridder._dateline_split_first_segment'), ('second', 'Gridder._dateline_split_second_segment'))
 IV = 'integrated_variables'
 
@@ -747,7 +1673,11 @@ def _rule_split_sum(ctx, m):
     rets = csv.returns()
     if len(rets) != 1:
         ctx.undecided('C04-R1', cs, 'return', f'{len(rets)} return statements')
-    lens = [closed(csv, x, at) for x, at in ret_elts(csv, rets[0])]
+    V = grid_values(ctx)
+    lens = [canon(V.close(cs, x, at)) for x, at in ret_elts(csv, rets[0])]
+    for e_ in lens:
+        for x_ in ast.walk(e_):
+            x_.__dict__.pop('_nm', None)
     side = {}
     kcs = set()
     for j, e in enumerate(lens):
@@ -767,29 +1697,31 @@ def _rule_split_sum(ctx, m):
         elif prim and 1 in offs:
             side.setdefault('second', []).append(j)
     ok = all(len(side.get(s, [])) == 1 for s in ('first', 'second')) and len(kcs) == 1
+    if not ok and not all(dist_args(x_) is not None for e_ in lens for x_ in ast.walk(e_)
+                          if isinstance(x_, (ast.Call, ast.Subscript)) and not isinstance(getattr(x_, 'value', None), ast.Name)
+                          and not (isinstance(x_, ast.Call) and call_name(x_).startswith(('np.', 'numpy.', 'math.')))):
+        ctx.undecided('C04-R1', cs, 'returned lengths', 'the returned lengths are not recognised as measured lengths (distance between '
+                      'two points) and sums of them: ' + '; '.join(norm(e_)[:60] for e_ in lens))
     ctx.ob('C04-R1', cs, 'one length measured from element k to the antimeridian, one from there to element k+1', ok,
            f'returned components {side.get("first")} and {side.get("second")}' if ok else
            'the two part lengths of the crossing segment are not both returned as measured lengths', line=rets[0].lineno)
     if not ok:
         return
     kcs = kcs.pop()
-    A = _rename(lens[side['first'][0]], 'cs__')
-    B = _rename(lens[side['second'][0]], 'cs__')
+    # ---- caller: the lengths as the call of _calculate_segment_lengths returns them, over the caller's own values.  The
+    # arguments of the split calls are closed the same way, so it does not matter how the lengths travel from one call to
+    # the other (tuple unpacking, a record, an intermediate helper).
+    from .c05 import _bind_args
+    cs_call = next((c for caller, c, callee in module_calls(ctx, m) if caller == gc and _same_fn(callee, cs)), None)
+    cs_bind = _bind_args(cs, cs_call) if cs_call is not None else None
+    if cs_bind is None:
+        ctx.undecided('C04-R1', gc, '_calculate_segment_lengths', 'plain call of the length computation not found')
+    cs_closed = {p: canon(V.close(gc, a_, stmt_of(cs_call))) for p, a_ in cs_bind.items()}
+    A = _rename(_subst(lens[side['first'][0]], cs_closed), 'caller__')
+    B = _rename(_subst(lens[side['second'][0]], cs_closed), 'caller__')
     total = ast.BinOp(left=A, op=ast.Add(), right=B)
     want = {'first': ast.BinOp(left=A, op=ast.Div(), right=total), 'second': ast.BinOp(left=B, op=ast.Div(), right=total)}
-    # ---- caller: the returned lengths under the names they are unpacked to ------------------------------------
-    unpack = None
-    for t_, st, how in stores_to(gc.node):
-        if isinstance(st, ast.Assign) and isinstance(st.value, ast.Call) and _same_fn(resolve_call(prog, gc, st.value), cs):
-            unpack = st
-    if unpack is None or not isinstance(unpack.targets[0], ast.Tuple) or len(unpack.targets[0].elts) != len(lens) \
-            or not all(isinstance(x, ast.Name) for x in unpack.targets[0].elts):
-        ctx.undecided('C04-R1', gc, '_calculate_segment_lengths', 'result is not unpacked into one name per returned length')
-    genv = {'caller__' + x.id: _rename(e, 'cs__') for x, e in zip(unpack.targets[0].elts, lens)}
-    cs_params = [p for p in cs.params if p not in ('self', 'cls')]
-    cs_bind = dict(zip(cs_params, unpack.value.args))
-    cs_bind.update({k.arg: k.value for k in unpack.value.keywords if k.arg})
-    kbind = {'lengths': norm(closed(gcv, cs_bind[kcs], unpack)) if kcs in cs_bind else None}
+    kbind = {'lengths': show(cs_closed[kcs], 200, top=True) if kcs in cs_closed else None}
 
     shares = {}
     nshare = 0
@@ -799,9 +1731,9 @@ def _rule_split_sum(ctx, m):
         call, binding = split_call(ctx, 'C04-R1', gc, fn)
         if IV not in binding:
             ctx.undecided('C04-R1', fn, IV, 'the split function has no such parameter')
-        env = dict(genv)
+        env = {}
         for p, a_ in binding.items():
-            env[p] = _rename(closed(gcv, a_, stmt_of(call)), 'caller__')
+            env[p] = _rename(canon(V.close(gc, a_, stmt_of(call))), 'caller__')
         returns = view.returns()
         evaluated = []
         for r in returns:
@@ -861,7 +1793,7 @@ def _check_share(ctx, fn, view, part, tag, r, var, parts, env, want, shares, kbi
         ctx.undecided('C04-R1', fn, tag, f'`{desc}` is not cut at one index parameter ({sorted(map(str, katoms))})')
     k = next(iter(katoms))
     call_arg = env.get(k)
-    kbind[part] = norm(call_arg).replace('caller__', '') if call_arg is not None else None
+    kbind[part] = show(_rename_back(call_arg), 200, top=True) if call_arg is not None else None
     # (a) the share term is there, once
     if len(elems) != 1:
         ctx.ob('C04-R1', fn, f'{tag}: crossing share included once in {desc}', False,
@@ -902,7 +1834,7 @@ def _check_share(ctx, fn, view, part, tag, r, var, parts, env, want, shares, kbi
     except AlgebraError as ex:
         raise Undecided(f'share `{shown[:60]}`: {ex}')
     oks = poly_equal(share, wanted)
-    txt = norm(_subst(_subst(e2, {ph: ast.Name(id='ONE__', ctx=ast.Load())}), {p: v for p, v in env.items() if not p.startswith('caller__')}))
+    txt = show(_subst(_subst(e2, {ph: ast.Name(id='ONE__', ctx=ast.Load())}), {p: v for p, v in env.items() if not p.startswith('caller__')}), 200)
     txt = re.sub(r'\b(caller|cs)__', '', txt.replace('ONE__ * ', '').replace(' * ONE__', '').replace('ONE__', '1'))
     ctx.ob('C04-R1', fn, f'{tag}: share = {txt[:80]}', oks,
            f'share of the {part} part = its own length over the sum of both lengths' if oks else
@@ -912,69 +1844,522 @@ def _check_share(ctx, fn, view, part, tag, r, var, parts, env, want, shares, kbi
     return 1
 
 
-def rule_share(ctx, m):
+# ---------------------------------------------------------------------------------------------------------------
+# What the share computation returns, by value.  Each of the six returned components is closed (see Values) and read
+# as a value over: the way-points / variables as received, the arrays the horizontal intersection returns
+# (RES__(call, 'lat index' | 'lon index' | 'lat coordinate' | 'lon coordinate')) and the grid axes.
+# ---------------------------------------------------------------------------------------------------------------
+HZ_FN = 'Gridder._trajectory_intersection_points_and_cells_horizontal'
+DIST_FN = 'great_circle_distance'
+INT_TYPES = ('int', 'np.int64', 'np.intp', 'np.int_', 'np.int32')
+
+
+def grid_values(ctx):
+    v = ctx.__dict__.get('_grid_values')
+    if v is None:
+        v = ctx._grid_values = Values(ctx.prog, keep=(DIST_FN, 'crosses_dateline', SHARE_FN.split('.')[-1], HZ_FN.split('.')[-1]))
+    return v
+
+
+def module_calls(ctx, m):
+    """[(caller, call node, callee)] for every resolved call between functions of module `m` (computed once per run)"""
+    key = '_module_calls_' + m.relpath
+    if key not in ctx.__dict__:
+        out = []
+        for fi in m.functions.values():
+            for c in calls_in(fi.node):
+                nm = call_name(c)
+                if nm.startswith(('np.', 'numpy.', 'math.', 'warnings.')) or nm in ('len', 'tuple', 'zip', 'range', 'print', 'int', 'set',
+                                                                                  'max', 'min', 'list', 'float', 'abs'):
+                    continue
+                try:
+                    callee = resolve_call(ctx.prog, fi, c)
+                except Exception:
+                    callee = None
+                if callee is not None and callee.file == m.relpath:
+                    out.append((fi, c, callee))
+        ctx.__dict__[key] = out
+    return ctx.__dict__[key]
+
+
+def hz_leaf(e):
+    """role of an array of the horizontal intersection's result ('lat index', ...), else None"""
+    if is_mk(e, RES) and getattr(e.args[0], '_ck', (None, None))[1] == HZ_FN:
+        return e.args[1].value
+    return None
+
+
+def strip_casts(e):
+    """`e` without value-preserving wrappers: .astype(<integer type>) on an index, np.asarray(x) / x.copy() without dtype"""
+    for _ in range(6):
+        b = pm('X_.astype(T_)', e)
+        if b is not None and show(b['T_']) in INT_TYPES:
+            e = b['X_']
+            continue
+        b = pm_any(['np.asarray(X_)', 'np.asanyarray(X_)', 'np.array(X_)', 'X_.copy()', 'np.copy(X_)', 'np.ascontiguousarray(X_)'], e)
+        if b is not None and not isinstance(b['X_'], ast.Tuple):
+            e = b['X_']
+            continue
+        # a cast to double precision loses nothing (way-points, times, quantities are real numbers or smaller integers)
+        b = pm_any(['np.asarray(X_, dtype=T_)', 'np.asanyarray(X_, dtype=T_)', 'np.array(X_, dtype=T_)', 'np.asarray(X_, T_)'], e)
+        if b is not None and not isinstance(b['X_'], ast.Tuple) and show(b['T_']) in ('float', 'np.float64', "'float64'", 'np.double', "'f8'"):
+            e = b['X_']
+            continue
+        b = pm('X_.astype(T_)', e)
+        if b is not None and show(b['T_']) in ('float', 'np.float64', "'float64'", 'np.double'):
+            e = b['X_']
+            continue
+        break
+    return e
+
+
+def count_of(e):
+    """(X, k) when `e` is (the number of non-NaN entries per row of X) + k, else None"""
+    k = 0
+    for _ in range(3):
+        b = pm('Y_ - K_', e)
+        if b is not None and isinstance(const_value(b['K_']), int):
+            e, k = b['Y_'], k - const_value(b['K_'])
+            continue
+        b = pm('Y_ + K_', e)
+        if b is not None and isinstance(const_value(b['K_']), int):
+            e, k = b['Y_'], k + const_value(b['K_'])
+            continue
+        break
+    b = pm_any(['np.count_nonzero(~np.isnan(X_), axis=A_)', 'np.sum(~np.isnan(X_), axis=A_)',
+                'np.count_nonzero(np.isfinite(X_), axis=A_)', 'np.sum(np.isfinite(X_), axis=A_)'], e)
+    if b is not None and const_value(b['A_']) in (1, -1):
+        return b['X_'], k
+    b = pm_any(['X_.shape[1] - np.count_nonzero(np.isnan(X_), axis=A_)', 'X_.shape[1] - np.sum(np.isnan(X_), axis=A_)'], e)
+    if b is not None and const_value(b['A_']) in (1, -1):
+        return b['X_'], k
+    return None
+
+
+def describe_count(e):
+    """(ok, text): `e` is the number of cells each segment touches: the non-NaN cell indices per row, or - the same
+    number - the non-NaN intersection points per row minus one"""
+    c = count_of(e)
+    if c is None:
+        return None, f'`{show(e, 60)}`'
+    x, k = c
+    role = hz_leaf(x)
+    if role in ('lat index', 'lon index'):
+        if k == 0:
+            return True, f'non-NaN {role} entries per segment'
+        return False, f'the number of cells per segment {"+" if k > 0 else "−"} {abs(k)}'
+    if role in ('lat coordinate', 'lon coordinate'):
+        if k == -1:
+            return True, f'non-NaN {role} entries per segment − 1'
+        return False, (f'non-NaN entries per row of the {role} array' + (f' {"+" if k > 0 else "−"} {abs(k)}' if k else '') +
+                       ' (there is one point more than there are cells per segment)')
+    return None, f'`{show(e, 60)}`'
+
+
+def same_count(a, b):
+    """two count vectors are the same vector: written the same, or both the number of cells per segment"""
+    return same(a, b) or (describe_count(a)[0] is True and describe_count(b)[0] is True)
+
+
+def parse_lookup(e):
+    """{axis, coord, minus, trail, side, sorter, arith} of a cell look-up value: peels integer casts, slices (recorded in
+    `trail`, outermost last) and `- 1`; None when there is no np.searchsorted underneath"""
+    trail, minus = [], 0
+    for _ in range(8):
+        s = strip_casts(e)
+        if s is not e:
+            e = s
+            continue
+        if isinstance(e, ast.Subscript) and isinstance(e.slice, ast.Slice):
+            trail.insert(0, show(e.slice))
+            e = e.value
+            continue
+        b = pm('X_ - 1', e)
+        if b is not None:
+            minus += 1
+            e = b['X_']
+            continue
+        b = pm('X_ + K_', e)
+        if b is not None and const_value(b['K_']) == -1:
+            minus += 1
+            e = b['X_']
+            continue
+        break
+    if isinstance(e, ast.Call) and call_name(e) == 'np.digitize' and len(e.args) >= 2:
+        # np.digitize(x, bins, right=True) is np.searchsorted(bins, x, side='left') for increasing bins; right=False is side='right'
+        right = kwarg(e, 'right') if kwarg(e, 'right') is not None else (e.args[2] if len(e.args) > 2 else ast.Constant(False))
+        side = ast.Constant('left' if const_value(right) is True else ('right' if const_value(right) is False else None))
+        e = ast.Call(func=ast.parse('np.searchsorted', mode='eval').body, args=[e.args[1], e.args[0]],
+                     keywords=[ast.keyword(arg='side', value=side)])
+    if isinstance(e, ast.Call) and call_name(e) == 'np.searchsorted' and len(e.args) >= 2:
+        coord = e.args[1]
+        # the search is element-wise: slicing the searched-for values first is slicing the result
+        while isinstance(coord, ast.Subscript) and isinstance(coord.slice, ast.Slice):
+            trail.insert(0, show(coord.slice))
+            coord = coord.value
+        return {'axis': e.args[0], 'coord': coord, 'minus': minus, 'trail': trail,
+                'side': kwarg(e, 'side') if kwarg(e, 'side') is not None else (e.args[2] if len(e.args) > 2 else None),
+                'sorter': kwarg(e, 'sorter') is not None or len(e.args) > 3}
+    return None
+
+
+def lookup_verdict(e, axis_attr, coord_ok):
+    """(ok, why) for a value that has to be `np.searchsorted(self.<axis_attr>, <coordinates as given>) - 1`; ok is None
+    when the form is not recognised.  `coord_ok(expr)` says whether the searched-for values are the right, unaltered ones."""
+    lk = parse_lookup(e)
+    if lk is None:
+        # an offset from one grid line divided by something: position computed from a spacing, not found by search
+        arith = mentions(e, lambda x: isinstance(x, ast.Subscript) and isinstance(x.value, ast.Attribute)
+                         and x.value.attr.startswith('grid_') and const_value(x.slice) is not None) and \
+            mentions(e, lambda x: isinstance(x, ast.BinOp) and isinstance(x.op, (ast.Div, ast.FloorDiv))) and \
+            not mentions(e, lambda x: isinstance(x, ast.Call) and call_name(x).endswith(('searchsorted', 'digitize', 'bisect_left',
+                                                                                         'bisect_right', 'bisect')))
+        if arith:
+            return False, (f'`{show(e, 70, top=True)}` does not search the axis: index arithmetic on the grid lines is only right for one kind of '
+                           'axis (evenly spaced); on other grids the cell is wrong')
+        return None, f'`{show(e, 70, top=True)}` is not recognised as a search of a grid axis'
+    ax = show(lk['axis'])
+    if ax != f'self.{axis_attr}':
+        if re.fullmatch(r'self\.grid_\w+', ax):
+            return False, f'the {axis_attr} cell is looked up on `{ax}`: wrong grid axis'
+        return None, f'searched axis `{ax[:50]}` is not recognised as the grid\'s own `{axis_attr}`'
+    if lk['minus'] != 1:
+        return False, (f'look-up is searchsorted(…) with {lk["minus"]} × “− 1”: the cell of a coordinate is the index of the last grid '
+                       'line below it, searchsorted − 1')
+    if lk['sorter'] or (lk['side'] is not None and const_value(lk['side']) != 'left'):
+        return False, 'look-up searches with another side / a sorter: points on a grid line change cell'
+    ok, why = coord_ok(lk['coord'])
+    if ok is not True:
+        return ok, why
+    return True, f'searchsorted(self.{axis_attr}, {show(lk["coord"], 40)}) − 1'
+
+
+def as_received(name):
+    """coord_ok for `the parameter <name>, as received` (value-preserving wrappers allowed)"""
+    def ok(c):
+        s = strip_casts(c)
+        if isinstance(s, ast.Name) and s.id == name:
+            return True, ''
+        if mentions(s, lambda x: (isinstance(x, ast.keyword) and x.arg == 'dtype') or
+                    (isinstance(x, ast.Attribute) and x.attr in ('astype', 'round', 'floor', 'ceil', 'trunc', 'rint'))):
+            return False, (f'the searched-for values are altered before the search (`{show(c, 60, top=True)}`): a value just above a grid line '
+                           'can land on or below it and is attributed to the cell below')
+        if isinstance(s, ast.Name):
+            return False, f'the cell is looked up for `{s.id}`, not for `{name}`'
+        return None, f'searched-for values `{show(c, 60, top=True)}` are not recognised as `{name}` as received'
+    return ok
+
+
+def pervar_values(V, fi, view, x, at):
+    """[(source parameter, loop variable, closed canonical element value)] + whether an empty alternative exists, for a
+    returned component that holds one array per member of a tuple-of-arrays parameter"""
+    out, empty = [], False
+    for a in view.coll(x, at):
+        if a[0] == 'empty':
+            empty = True
+            continue
+        _, src, var, expr, at2, bound = a
+        out.append((src, var, canon(V.close(fi, expr, at2, frozenset(bound) | {var})), at2))
+    return out, empty
+
+
+def dist_args(e):
+    """(lat0, lon0, lat1, lon1) of a distance between two point sets, else None"""
+    b = pm(f'{DIST_FN}(A_, B_, C_, D_)', e)
+    if b is not None:
+        return b['A_'], b['B_'], b['C_'], b['D_']
+    b = pm('GEOD.inv(B_, A_, D_, C_, radians=True)[2]', e)
+    if b is not None:
+        return b['A_'], b['B_'], b['C_'], b['D_']
+    return None
+
+
+def consecutive(e0, e1):
+    """X when e0 is X[:-1] and e1 is X[1:] (each point paired with the next one), else None"""
+    b0, b1 = pm('X_[:-1]', e0), pm('X_[1:]', e1)
+    if b0 is not None and b1 is not None and same(b0['X_'], b1['X_']):
+        return b0['X_']
+    return None
+
+
+def share_model(ctx, m):
+    """closed, canonical returned components of the share computation (cached on ctx): list per return statement of
+    [(raw expr, statement, closed value or None)]"""
+    if '_share_model' in ctx.__dict__:
+        return ctx._share_model
+    V = grid_values(ctx)
     fn = m.func(SHARE_FN)
-    d = single_def_value(fn.node, 'subsegment_distance_fractions')
-    if not (isinstance(d, ast.Call) and call_name(d) in ('np.divide', 'numpy.divide')):
-        if isinstance(d, ast.Call) and call_name(d) in ('np.where', 'numpy.where') and len(d.args) == 3:
-            c, a, b = d.args
-            ok = isinstance(c, ast.Compare) and isinstance(c.ops[0], ast.NotEq) and norm(b) in ('1.0', '1', 'np.ones_like(subsegment_distances)')
-            ctx.ob('C04-R2', fn, f'share = {norm(d)[:80]}', ok, 'np.where form defaulting to one' if ok else
-                   'share of a zero-length segment is not one', line=d.lineno)
-            return
-        ctx.undecided('C04-R2', fn, 'subsegment_distance_fractions', 'share is not a guarded np.divide / np.where')
-    num, den = d.args[0], d.args[1]
-    out, where = kwarg(d, 'out'), kwarg(d, 'where')
-    ok_where = where is not None and isinstance(where, ast.Compare) and isinstance(where.ops[0], ast.NotEq) \
-        and norm(where.left) == norm(den) and norm(where.comparators[0]) in ('0', '0.0')
-    ctx.ob('C04-R2', fn, f'division guarded by where={norm(where) if where is not None else None}', ok_where,
-           'guard tests the denominator' if ok_where else
-           (f'the guard of the share division tests `{norm(where.left) if isinstance(where, ast.Compare) else None}` '
-            f'instead of the denominator `{norm(den)}`: zero-length *pieces* of a real segment get the default '
-            'share and the segment is counted again (or a zero denominator is divided by)'), line=d.lineno)
-    ok_out = isinstance(out, ast.Call) and call_name(out) in ('np.ones_like', 'np.ones', 'numpy.ones_like')
-    ctx.ob('C04-R2', fn, f'default share out={norm(out) if out is not None else None}', ok_out,
-           'a zero-length segment keeps its whole quantity (share one)' if ok_out else
-           'a repeated point (zero-length segment) gets share 0: its integrated quantity is lost from the gridded total',
-           line=d.lineno)
-    ok = norm(num) == 'subsegment_distances' and norm(den) == 'segment_distances_repeated'
-    ctx.ob('C04-R3', fn, f'share = {norm(num)} / {norm(den)}', ok, 'piece length over whole-segment length' if ok else
-           'numerator/denominator of the share changed', line=d.lineno)
-    # R3 repeats
-    reps = [c for c in calls_in(fn.node) if call_name(c) in ('np.repeat', 'numpy.repeat')]
-    ctx.floor('C04-R3', len(reps), 5, 'np.repeat calls in the share computation')
-    counts = {norm(c.args[1]) for c in reps if len(c.args) > 1}
-    cd = [st for t, st, how in stores_to(fn.node) if isinstance(t, ast.Name) and t.id in counts]
-    ok = len(counts) == 1 and len(cd) == 1
-    ctx.ob('C04-R3', fn, f'{len(reps)} expansions use count vector(s) {sorted(counts)}', ok,
-           'one singly-defined repetition vector for cells, state, numerators and denominators' if ok else
-           'outputs are expanded by different count vectors: lengths / attribution disagree', line=reps[0].lineno)
-    cdef = cd[0].value if cd else None
-    ok = cdef is not None and norm(cdef) == 'np.count_nonzero(~np.isnan(all_subsegment_lat_indices), axis=1)'
-    ctx.ob('C04-R3', fn, f'count vector = {norm(cdef) if cdef is not None else "?"}', ok,
-           'number of touched cells per segment' if ok else 'count vector definition changed', nontrivial=False)
-    sd = [st for t, st, how in stores_to(fn.node) if isinstance(t, ast.Name) and t.id == 'segment_distances']
-    ok = len(sd) == 1 and norm(sd[0].value) == 'great_circle_distance(lats[:-1], lons[:-1], lats[1:], lons[1:])'
-    ctx.ob('C04-R3', fn, 'whole-segment length between consecutive points', ok, norm(sd[0].value) if ok else
-           'segment length is not measured between consecutive trajectory points')
-    rp = single_def_value(fn.node, 'segment_distances_repeated')
-    ok = rp is not None and norm(rp) == 'np.repeat(segment_distances, count_subsegments)'
-    ctx.ob('C04-R3', fn, 'denominator expanded with the count vector', ok, norm(rp) if ok else 'denominator expansion changed', nontrivial=False)
-    iv = single_def_value(fn.node, 'integrated_variable_values')
-    ivs = [st.value for t, st, how in stores_to(fn.node) if isinstance(t, ast.Name) and t.id == 'integrated_variable_values']
-    gen = next((v for v in ivs if isinstance(v, ast.Call) and call_name(v) == 'tuple'), None)
-    ok = gen is not None and 'np.repeat(variable, count_subsegments) * subsegment_distance_fractions' in norm(gen)
-    ctx.ob('C04-R3', fn, 'piece value = repeated segment value × share', ok, 'value × share' if ok else
-           'integrated values are not the segment value times its share')
-    # sub-segment distances: consecutive flattened points, with the joints between segments removed
-    ssd = [st for t, st, how in stores_to(fn.node) if isinstance(t, ast.Name) and t.id == 'subsegment_distances']
-    ok = len(ssd) == 2 and 'all_segment_point_lats_flat[:-1]' in norm(ssd[0].value) and 'all_segment_point_lats_flat[1:]' in norm(ssd[0].value) \
-        and norm(ssd[1].value) == 'np.delete(subsegment_distances, non_segment_idxs)'
-    ctx.ob('C04-R3', fn, 'piece lengths between consecutive intersection points, joints removed', ok,
-           'np.delete(…, non_segment_idxs)' if ok else 'piece length computation changed')
-    ns = single_def_value(fn.node, 'non_segment_idxs')
-    ok = ns is not None and norm(ns) == '(np.cumsum(count_subsegments + 1) - 1)[:-1]'
-    ctx.ob('C04-R3', fn, 'joint positions from the same count vector', ok, norm(ns) if ok else 'joint index computation changed')
+    view = V.view(fn)
+    rows = []
+    for r in view.returns():
+        elts = ret_elts(view, r)
+        if len(elts) != 6:
+            ctx.undecided('C05-R2', fn, 'returned parts', f'the share computation returns {len(elts)} parts (expected cell latitude / '
+                          'longitude / altitude / time indices, state values, integrated values)')
+        rows.append((r, elts))
+    if not rows:
+        ctx.undecided('C05-R2', fn, 'returned parts', 'no return statement')
+    ctx._share_model = (V, fn, view, rows)
+    return ctx._share_model
+
+
+class _Counts(ast.NodeTransformer):
+    def visit(self, n):
+        if isinstance(n, ast.expr) and describe_count(n)[0] is True:
+            return ast.Name(id='COUNT__', ctx=ast.Load())
+        return super().visit(n)
+
+
+def same_value(a, b):
+    """the same closed value, the number of cells per segment counting as one value however it is counted"""
+    return same(a, b) or same(_Counts().visit(tcopy(a)), _Counts().visit(tcopy(b)))
+
+
+def guard_verdict(W, D, N=None, nonneg=False):
+    """(ok, why): the mask `W` of a guarded division is the exact test `D != 0` on the denominator `D` (`nonneg`: the
+    denominator is a length, never negative, so `> 0` is the same test)"""
+    exact = 'the division is skipped exactly where the denominator is zero'
+    tol = (f'the guard `{show(W, 60)}` is not the exact test `{show(D, 40)} != 0`: with a tolerance, a segment whose '
+           'denominator is tiny but non-zero is treated as degenerate (its grid-line crossing is lost / every piece gets the '
+           'default share: NaN intersection, output arrays of different lengths, quantities counted more than once)')
+    b = pm_any(['X_ != 0', 'np.abs(X_) > 0', 'np.abs(X_) != 0'] + (['X_ > 0'] if nonneg else []), W)
+    if b is not None:
+        x = b['X_']
+        if same_value(x, D):
+            return True, exact
+        if N is not None and same_value(x, N):
+            return False, (f'the guard of the division tests the numerator `{show(x, 50)}` instead of the denominator `{show(D, 50)}`: '
+                           'zero-length *pieces* of a real segment get the default share and the segment is counted again (or a zero '
+                           'denominator is divided by)')
+        bd = pm('np.repeat(Y_, C_)', D)
+        if bd is not None and same_value(x, bd['Y_']):
+            return False, f'the guard tests `{show(x, 50)}` before it is expanded: it does not line up with the denominator `{show(D, 50)}`'
+        return False, f'the guard of the division tests `{show(x, 50)}` instead of the denominator `{show(D, 50)}`'
+    b, bd = pm_any(['np.repeat(X_ != 0, C_)', 'np.repeat(np.abs(X_) > 0, C_)'], W), pm('np.repeat(Y_, C_)', D)
+    if b is not None and bd is not None and same_value(b['X_'], bd['Y_']) and same_value(b['C_'], bd['C_']):
+        return True, exact + ' (test made before the expansion)'
+    b = pm_any(['X_ > K_', 'X_ >= K_', 'np.abs(X_) > K_', 'np.abs(X_) >= K_', 'X_ < K_', 'X_ <= K_'], W)
+    if b is not None and const_value(b['K_']) is not None:
+        if not same_value(b['X_'], D):
+            return False, f'the guard of the division tests `{show(b["X_"], 50)}` instead of the denominator `{show(D, 50)}`'
+        if const_value(b['K_']) == 0:
+            return False, (f'the guard `{show(W, 60)}` is not the test `{show(D, 40)} != 0`: denominators of one sign are treated as zero')
+        return False, tol
+    if mentions(W, lambda x: isinstance(x, ast.Call) and call_name(x) in ('np.isclose', 'np.allclose', 'math.isclose')):
+        return False, tol
+    return None, f'guard `{show(W, 60)}` is not recognised as a test of the denominator `{show(D, 40)}`'
+
+
+def default_verdict(O):
+    """(ok, why): the value left where the division is skipped is one"""
+    b = pm_any(['np.ones_like(X_)', 'np.ones(X_)', 'np.ones_like(X_, dtype=T_)', 'np.ones(X_, dtype=T_)'], O)
+    if b is not None:
+        return True, 'a zero-length segment keeps its whole quantity (share one)'
+    b = pm_any(['np.full_like(X_, K_)', 'np.full(X_, K_)', 'np.full_like(X_, K_, dtype=T_)', 'np.full(X_, K_, dtype=T_)'], O)
+    if b is not None and const_value(b['K_']) is not None:
+        O = b['K_']
+    if const_value(O) is not None:
+        if const_value(O) == 1:
+            return True, 'a zero-length segment keeps its whole quantity (share one)'
+        return False, (f'a repeated point (zero-length segment) gets share {const_value(O)}: its integrated quantity is lost from '
+                       '(or miscounted in) the gridded total')
+    if pm_any(['np.zeros_like(X_)', 'np.zeros(X_)', 'np.zeros_like(X_, dtype=T_)', 'np.zeros(X_, dtype=T_)'], O) is not None:
+        return False, 'a repeated point (zero-length segment) gets share 0: its integrated quantity is lost from the gridded total'
+    if pm_any(['np.empty_like(X_)', 'np.empty(X_)'], O) is not None:
+        return False, 'the share of a repeated point (zero-length segment) is left uninitialised'
+    return None, f'default `{show(O, 50)}` is not recognised'
+
+
+def split_share(SH):
+    """(N, D, O, W) of a guarded share `N / D where W else O`; ('unguarded', N, D) for a plain quotient; None"""
+    b = pm('np.divide(N_, D_, out=O_, where=W_)', SH)
+    if b is not None:
+        return b['N_'], b['D_'], b['O_'], b['W_']
+    b = pm_any(['np.where(W_, N_ / D_, O_)', 'np.where(W_, np.divide(N_, D_), O_)'], SH)
+    if b is not None:
+        return b['N_'], b['D_'], b['O_'], b['W_']
+    b = pm_any(['N_ / D_', 'np.divide(N_, D_)'], SH)
+    if b is not None:
+        return 'unguarded', b['N_'], b['D_']
+    return None
+
+
+class Pending:
+    """verdicts of one rule: violations and passes are recorded at once; forms that are not recognised are kept and
+    raised (exit 2) only after everything that can be decided has been decided"""
+
+    def __init__(self, ctx):
+        self.ctx = ctx
+        self.open = []
+
+    def put(self, rule, where, construct, verdict, line=0, nontrivial=True):
+        ok, why = verdict
+        if ok is None:
+            self.open.append((rule, where, construct, why))
+            return None
+        self.ctx.ob(rule, where, construct, ok, why, line=line, nontrivial=nontrivial)
+        return ok
+
+    def flush(self):
+        if self.open:
+            rule, where, construct, why = self.open[0]
+            self.ctx.undecided(rule, where, construct, why + (f' (+{len(self.open) - 1} more)' if len(self.open) > 1 else ''))
+
+
+def run_rules(ctx, prop, rules):
+    """run every rule; a rule that cannot decide (lost anchor, unknown idiom) does not keep the others from reporting what
+    they establish - the first such failure is raised after all rules have run"""
+    from ..loader import AnalysisError
+    first = None
+    for f in rules:
+        try:
+            f()
+        except AnalysisError as e:
+            first = first or e
+        except Undecided as e:
+            first = first or AnalysisError(f'UNDECIDED rule={prop} {GRID} :: {e}')
+        except Exception as e:      # a defect of a rule is an analysis failure of that rule, never a verdict
+            import traceback
+            where = traceback.extract_tb(e.__traceback__)[-1]
+            first = first or AnalysisError(f'internal: {type(e).__name__}: {e} ({where.name}:{where.lineno})')
+    if first is not None:
+        raise first
+
+
+def rule_share(ctx, m):
+    """C04-R2 / C04-R3 on closed values: every integrated output is `repeat(variable, COUNT) * SHARE` where
+    SHARE = PIECE / WHOLE guarded on WHOLE != 0 with default one, PIECE = lengths between consecutive intersection
+    points with the joints between segments (positions from COUNT) removed, WHOLE = repeat(length between consecutive
+    way-points, COUNT), both lengths by one distance function; COUNT is the number of cells per segment."""
+    V, fn, view, rows = share_model(ctx, m)
+    V.speak_for(fn)
+    pend = Pending(ctx)
+    nshare = 0
+    for r, elts in rows:
+        x, at = elts[5]
+        try:
+            pv, _ = pervar_values(V, fn, view, x, at)
+        except Undecided as e:
+            ctx.undecided('C04-R3', fn, 'integrated values', str(e))
+        for src, var, val, at2 in pv:
+            line = getattr(at2, 'lineno', r.lineno)
+            if src != IV:
+                ctx.ob('C04-R3', fn, f'integrated output built from {src}', False,
+                       f'the integrated values of the pieces are computed from `{src}`, not from `{IV}`', line=line)
+                continue
+            b = pm_any(['np.repeat(VAR_, C_) * SH_', 'np.multiply(np.repeat(VAR_, C_), SH_)', 'np.multiply(SH_, np.repeat(VAR_, C_))'], val)
+            if b is None or not (isinstance(b['VAR_'], ast.Name) and b['VAR_'].id == var):
+                b2 = pm_any(['np.repeat(VAR_, C_) * N_ / D_', 'np.repeat(VAR_, C_) / D_ * N_'], val)
+                if b2 is not None:
+                    ctx.ob('C04-R2', fn, f'piece value = {show(val, 70)}', False,
+                           'the share is an unguarded quotient: a repeated point (zero-length segment) gives 0/0 = NaN instead of '
+                           'keeping its whole quantity', line=line)
+                    continue
+                pend.put('C04-R3', fn, 'piece value = repeated segment value × share',
+                         (None, f'`{show(val, 90)}` is not recognised as repeat({var}, count) × share'))
+                continue
+            nshare += 1
+            ctx.ob('C04-R3', fn, 'piece value = repeated segment value × share', True, 'value × share', line=line)
+            C, SH = b['C_'], b['SH_']
+            okc, whatc = describe_count(C)
+            pend.put('C04-R3', fn, 'values expanded by the count vector',
+                     (okc, ('number of touched cells per segment: ' + whatc) if okc else
+                      f'the integrated values are repeated by {whatc}, not by the number of cells each segment touches'), line=line)
+            parts = split_share(SH)
+            if parts is None:
+                pend.put('C04-R2', fn, 'share', (None, f'share `{show(SH, 90)}` is not a guarded quotient (np.divide(out=, where=) / np.where)'))
+                continue
+            if parts[0] == 'unguarded':
+                ctx.ob('C04-R2', fn, f'share = {show(SH, 70)}', False,
+                       'the share is an unguarded quotient: a repeated point (zero-length segment) gives 0/0 = NaN instead of keeping '
+                       'its whole quantity', line=line)
+                continue
+            N, D, O, W = parts
+            pend.put('C04-R2', fn, f'division guarded by where={show(W, 60)}', guard_verdict(W, D, N, nonneg=True), line=line)
+            pend.put('C04-R2', fn, f'default share {show(O, 50)}', default_verdict(O), line=line)
+            # ---- denominator: whole-segment length between consecutive way-points, expanded by the same count vector
+            bd = pm('np.repeat(L_, C2_)', D)
+            if bd is None:
+                pend.put('C04-R3', fn, 'denominator', (None, f'denominator `{show(D, 80)}` is not a repeated per-segment length'))
+            else:
+                pend.put('C04-R3', fn, 'denominator expanded with the count vector',
+                         (True, 'same count vector as the values') if same_count(bd['C2_'], C) else
+                         ((False, f'the whole-segment lengths are repeated by `{show(bd["C2_"], 50)}`, the values by `{show(C, 50)}`: outputs '
+                           'are expanded by different count vectors, lengths / attribution disagree')
+                          if describe_count(bd['C2_'])[0] is not None else (None, f'count vector `{show(bd["C2_"], 60)}` is not recognised')),
+                         line=line, nontrivial=False)
+                da = dist_args(bd['L_'])
+                if da is None:
+                    pend.put('C04-R3', fn, 'whole-segment length', (None, f'`{show(bd["L_"], 80)}` is not a distance between two point sets'))
+                else:
+                    la, lo = consecutive(da[0], da[2]), consecutive(da[1], da[3])
+                    ok = la is not None and lo is not None and show(strip_casts(la)) == 'lats' and show(strip_casts(lo)) == 'lons'
+                    if ok:
+                        verdict = (True, f'{DIST_FN}(lats[:-1], lons[:-1], lats[1:], lons[1:])')
+                    elif la is not None and lo is not None and {show(strip_casts(la)), show(strip_casts(lo))} == {'lats', 'lons'}:
+                        verdict = (False, 'latitudes and longitudes are swapped in the whole-segment length')
+                    elif all(isinstance(z, (ast.Subscript, ast.Name)) for z in da) and \
+                            all(show(strip_casts(z)).split('[')[0] in ('lats', 'lons') for z in da):
+                        verdict = (False, f'segment length `{show(bd["L_"], 80)}` is not measured between consecutive trajectory points')
+                    else:
+                        verdict = (None, f'`{show(bd["L_"], 80)}` is not recognised as the length between consecutive way-points')
+                    pend.put('C04-R3', fn, 'whole-segment length between consecutive points', verdict, line=line)
+            # ---- numerator: lengths between consecutive intersection points, joints between segments removed
+            bn = pm('np.delete(L_, J_)', N)
+            if bn is None:
+                pend.put('C04-R3', fn, 'numerator', (None, f'numerator `{show(N, 90)}` is not np.delete(<lengths between consecutive '
+                                                    'intersection points>, <joints>)'))
+                continue
+            da = dist_args(bn['L_'])
+            same_fn = da is not None and bd is not None and dist_args(bd['L_']) is not None and \
+                (pm(f'{DIST_FN}(A_, B_, C_, D_)', bn['L_']) is None) == (pm(f'{DIST_FN}(A_, B_, C_, D_)', bd['L_']) is None)
+            if da is None:
+                pend.put('C04-R3', fn, 'piece lengths', (None, f'`{show(bn["L_"], 80)}` is not a distance between two point sets'))
+            else:
+                la, lo = consecutive(da[0], da[2]), consecutive(da[1], da[3])
+                verdict = None
+                if la is not None and lo is not None:
+                    pa, po = pm('X_[~np.isnan(Y_)]', la), pm('X_[~np.isnan(Y_)]', lo)
+                    if pa is not None and po is not None:
+                        ra, ro = hz_leaf(pa['X_']), hz_leaf(po['X_'])
+                        ma, mo = hz_leaf(pa['Y_']), hz_leaf(po['Y_'])
+                        if (ra, ro) == ('lat coordinate', 'lon coordinate') and {ma, mo} <= {'lat coordinate', 'lon coordinate'}:
+                            verdict = (True, 'np.delete(distance between consecutive flattened intersection points, joints)')
+                        elif (ra, ro) == ('lon coordinate', 'lat coordinate'):
+                            verdict = (False, 'latitudes and longitudes of the intersection points are swapped in the piece lengths')
+                        elif None not in (ra, ro, ma, mo):
+                            verdict = (False, f'piece lengths are measured on the {ra} / {ro} arrays masked by the {ma} / {mo} arrays: '
+                                              'not the intersection points of the segments')
+                if verdict is None:
+                    verdict = (None, f'`{show(bn["L_"], 90)}` is not recognised as the length between consecutive intersection points')
+                pend.put('C04-R3', fn, 'piece lengths between consecutive intersection points, joints removed', verdict, line=line)
+                if bd is not None and dist_args(bd['L_']) is not None:
+                    pend.put('C04-R3', fn, 'piece and whole lengths by one distance function',
+                             (True, DIST_FN) if same_fn else (False, 'piece lengths and whole-segment lengths are measured by different '
+                                                              'distance functions: the shares of a segment do not sum to one'),
+                             line=line, nontrivial=False)
+            bj = pm_any(['(np.cumsum(C3_ + 1) - 1)[:-1]', 'np.cumsum(C3_ + 1)[:-1] - 1', 'np.cumsum((C3_ + 1)[:-1]) - 1'], bn['J_'])
+            if bj is None:
+                # the same shape with other offsets: every segment contributes count + 1 points to the flattened point array
+                # and the pair that joins it to the next segment is the last of those
+                bo = pm_any(['(np.cumsum(E_) - K_)[:-1]', 'np.cumsum(E_)[:-1] - K_', '(np.cumsum(E_))[:-1]', 'np.cumsum(E_)[:-1]'], bn['J_'])
+                ce = count_of(bo['E_']) if bo is not None else None
+                if bo is not None and ce is not None and hz_leaf(ce[0]) is not None and const_value(bo.get('K_', ast.Constant(0))) is not None:
+                    pend.put('C04-R3', fn, 'joint positions', (False,
+                             f'the joints between segments are located at `{show(bn["J_"], 70, top=True)}`: a segment with n cells has n + 1 '
+                             'points in the flattened point array, so the pair joining it to the next segment sits at '
+                             'cumsum(count + 1) − 1; with other offsets real piece lengths are dropped and joints are kept'), line=line)
+                else:
+                    pend.put('C04-R3', fn, 'joint positions', (None, f'joints `{show(bn["J_"], 80)}` are not (cumsum(count + 1) − 1)[:-1]'))
+            else:
+                pend.put('C04-R3', fn, 'joint positions from the same count vector',
+                         (True, '(cumsum(count + 1) − 1)[:-1]') if same_count(bj['C3_'], C) else
+                         ((False, f'the joints between segments are located with `{show(bj["C3_"], 50)}`, the values are expanded by '
+                           f'`{show(C, 50)}`: the wrong piece lengths are dropped')
+                          if describe_count(bj['C3_'])[0] is not None else (None, f'count vector `{show(bj["C3_"], 60)}` is not recognised')),
+                         line=line)
+    ctx.floor('C04-R3', nshare, 1, 'integrated outputs of the form repeat(value, count) × share')
+    pend.flush()
 
 
 def rule_suffix(ctx, m, rule='C04-R4', only=None, name_filter=None):
@@ -1027,59 +2412,85 @@ def rule_suffix(ctx, m, rule='C04-R4', only=None, name_filter=None):
 
 def rule_passthrough(ctx, m):
     """R5/R6: nothing drops or re-orders pieces before the share computation."""
-    hz = m.func('Gridder._trajectory_intersection_points_and_cells_horizontal')
-    for ax, coord in (('lat', 'lats'), ('lon', 'lons')):
-        d = single_def_value(hz.node, f'{ax}_change_signs')
-        ok = d is not None and norm(d) == f'np.sign(np.diff({coord}))'
-        ctx.ob('C04-R5', hz, f'{ax}_change_signs = {norm(d) if d is not None else "?"}', ok,
-               'ordering direction from the coordinates themselves' if ok else
-               ('the ordering direction of intersection points is not the sign of the coordinate difference: a leg '
-                f'inside one {ax} band (index change 0) gets direction 0, its pieces zig-zag and its length '
-                'fractions sum to more than one'), line=(d.lineno if d is not None else hz.node.lineno))
+    from .c05 import rule_direction
+    rule_direction(ctx, m, 'C04-R5')
     rule_forwarding(ctx, m, 'C04-R6', ('integrated_variables', 'lats', 'lons'),
                     'points / per-segment quantities that are filtered out or moved here are missing from, or misplaced in, '
                     'the gridded total')
 
 
+FORWARDING = ('Gridder.grid_trajectory', 'Gridder._grid_trajectory_without_dateline_crossing',
+              'Gridder._grid_trajectory_with_dateline_crossing')
+
+
 def rule_forwarding(ctx, m, rule, tracked, consequence):
-    """the entry points hand their arguments to the gridding as received"""
-    forwarding = ['Gridder.grid_trajectory', 'Gridder._grid_trajectory_without_dateline_crossing',
-                  'Gridder._grid_trajectory_with_dateline_crossing']
-    for qn in forwarding:
+    """the entry points hand their arguments to the gridding as received: at every call into the module, the value bound to
+    a callee parameter of a tracked role closes to the caller's own parameter of that name (a value-preserving wrapper -
+    np.asarray(x), x.copy() - is still that value; anything else - a filter, a wrap, arithmetic - is not)"""
+    from .c05 import _bind_args
+    V = grid_values(ctx)
+    pend = Pending(ctx)
+    n = 0
+    for qn in FORWARDING:
         fi = m.func(qn)
-        for nm in tracked:
-            if nm not in fi.params:
+        V.speak_for(fi)
+        for caller, c, callee in module_calls(ctx, m):
+            if caller is not fi or callee.node.name in ('__init__', '__post_init__'):
                 continue
-            rebinds = [st for t, st, how in stores_to(fi.node) for x in ast.walk(t) if isinstance(x, ast.Name) and x.id == nm]
-            filt = [x for x in walk_no_nested(fi.node) if isinstance(x, ast.Subscript) and norm(x.value) == nm
-                    and nm == 'integrated_variables']
-            ok = not rebinds
-            ctx.ob(rule, fi, f'`{nm}` reaches the gridding unmodified', ok,
-                   'passed through as received' if ok else
-                   (f'`{nm}` is rebound at line {rebinds[0].lineno} (`{norm(rebinds[0])[:70]}`) before the cells and shares are '
-                    f'computed: {consequence}'), line=(rebinds[0].lineno if rebinds else fi.node.lineno))
-        for c in calls_in(fi.node):
-            callee = resolve_call(ctx.prog, fi, c)
-            if callee is not None and 'integrated_variables' in callee.params:
-                i = callee.params.index('integrated_variables') - 1
-                a = c.args[i] if 0 <= i < len(c.args) else None
-                ok = a is not None and norm(a) == 'integrated_variables'
-                ctx.ob(rule, fi, f'{callee.name}(…, integrated_variables={norm(a) if a is not None else "?"})', ok,
-                       'the caller\'s integrated variables, whole' if ok else
-                       'a filtered / different value is passed as the integrated variables', line=c.lineno)
+            bind = _bind_args(callee, c)
+            if bind is None:
+                if any(p in tracked for p in callee.params):
+                    pend.put(rule, fi, f'{callee.name}(…)', (None, 'call with * / ** arguments'))
+                continue
+            for p, a in bind.items():
+                if p not in tracked or p not in fi.params:
+                    continue
+                n += 1
+                val = canon(V.close(fi, a, stmt_of(c)))
+                al = alts(val)
+                for alt in al:
+                    s_ = strip_casts(alt)
+                    for _ in range(2):      # a tuple of arrays put into a tuple / list again is the same arrays
+                        bt = pm_any(['tuple(X_)', 'list(X_)'], s_)
+                        if bt is not None:
+                            s_ = strip_casts(bt['X_'])
+                    what = f'`{p}` reaches {callee.name} unmodified'
+                    if isinstance(s_, ast.Name) and s_.id == p:
+                        ctx.ob(rule, fi, what, True, 'passed through as received', line=c.lineno)
+                    elif len(al) > 1 and ((isinstance(s_, ast.Constant) and s_.value is None) or
+                                          (isinstance(s_, ast.Tuple) and not s_.elts) or pm_any(['tuple()', 'list()'], s_) is not None):
+                        continue        # the "absent" alternative of an optional argument (None / empty default)
+                    elif isinstance(s_, ast.Name) and s_.id in fi.params:
+                        ctx.ob(rule, fi, what, False, f'`{s_.id}` is passed where `{p}` belongs', line=c.lineno)
+                    else:
+                        d = next((st for st in view_defs(V, fi, p)), None)
+                        ctx.ob(rule, fi, what, False,
+                               (f'`{p}` reaches {callee.name} as `{show(alt, 70, top=True)}`' +
+                                (f' (rebound at line {d.lineno}: `{norm(d)[:70]}`)' if d is not None else '') +
+                                f' before the cells and shares are computed: {consequence}'), line=(d.lineno if d is not None else c.lineno))
+    ctx.floor(rule, n, 6, 'tracked arguments passed on by the entry points')
+    pend.flush()
+
+
+def view_defs(V, fi, name):
+    """statements of `fi` that rebind the parameter `name`"""
+    return [st for t, st, how in stores_to(fi.node) for x in ast.walk(t) if isinstance(x, ast.Name) and x.id == name]
 
 
 def run(ctx):
     m = ctx.prog.module(GRID)
-    rule_passthrough(ctx, m)
-    rule_split_sum(ctx, m)
-    rule_share(ctx, m)
-    # only names that bear on the integrated quantities: the values themselves, the split lengths and the geometry
-    rule_suffix(ctx, m, name_filter=lambda nme: re.search(r'integrated|length|lat|lon', nme) is not None)
-    # the horizontal cells a segment's pieces are cut at come from searching the axes themselves (shares sum to one
-    # only if the start/end cells and the midpoint cells are found the same way)
     from .c05 import rule_lookup
-    rule_lookup(ctx, m, 'C04-R7')
+    run_rules(ctx, 'C04', [
+        lambda: rule_passthrough(ctx, m),
+        lambda: rule_split_sum(ctx, m),
+        lambda: rule_share(ctx, m),
+        # only names that bear on the integrated quantities: the values themselves, the split lengths and the geometry
+        lambda: rule_suffix(ctx, m, name_filter=lambda nme: re.search(r'integrated|length|lat|lon', nme) is not None),
+        # the horizontal cells a segment's pieces are cut at come from searching the axes themselves (shares sum to one
+        # only if the start/end cells and the midpoint cells are found the same way)
+        lambda: rule_lookup(ctx, m, 'C04-R7'),
+    ])
     ctx.note('NOT decided: the numeric conservation bound, grid-line intersection geometry, great-circle vs map-line lengths')
     ctx.assumptions += ['np.divide(out=, where=) leaves `out` untouched where the guard is false',
-                        'np.repeat(a, counts) repeats element i counts[i] times']
+                        'np.repeat(a, counts) repeats element i counts[i] times',
+                        'indexing with a boolean mask returns a fresh flat array (a following .flatten() is the identity)']
